@@ -14,15 +14,27 @@
   (`untag`).
 
   ═══ RESULT IN ONE LINE ═══
-  The claim is now PROVED for EVERY operation list the reader accepts (hypotheses: real values,
-  pointer texts in canonical RFC 6901 spelling, written indices below 2^53, two IEEE laws). The former
-  findings F1–F3b (the element loop took tests for context looking only at the last index of their
-  pointers) were genuine defects of the Go code, HAVE BEEN FIXED in /repo/v2/diff_read.go, and are
-  kept as regression theorems `fixed_…` (the reader now rejects the witnesses). NO new counterexample
-  was found: no accepted shape is still unfaithful. Two observations about token spelling remain.
+  The claim is PROVED for EVERY operation list the reader accepts (hypotheses: real values, index
+  tokens and written indices below 2^53, two IEEE laws) — since the repair of D30 WITHOUT any
+  hypothesis on the spelling of the pointer texts (`readPatchOps_never_more_permissive_all_pointers`,
+  section 9b; the former hypothesis `canonPtr` survives only in corollaries under the former names).
+  The former findings F1–F3b (the element loop took tests for context looking only at the last
+  index of their pointers, D28) and the former OBSERVATIONS about token spelling (`01`, `+1`, `-1` read
+  as array indices, `~2` kept as text: jd applied patches RFC 6902 rejects, D30) were genuine defects
+  of the Go code, HAVE BEEN FIXED (v2/diff_read.go, v2/pointer.go), and are kept as regression
+  theorems `fixed_…`.
 
   ═══ MAIN THEOREMS ═══
-  T1 `readPatchOps_never_more_permissive` (FloatLaws, FloatEq0; ANY list `ops`):
+  T0 `readPatchOps_never_more_permissive_all_pointers` (section 9b; FloatLaws, FloatEq0; ANY list `ops`):
+        as T1 below with `idxTokensOK o.path` (Bool: every token that is an RFC 6901 array index is
+        below 2^53) INSTEAD OF `canonPtr o.path`. Proved from `readPatchOps_never_more_permissive_r`
+        (hypothesis `ptrOKr`: if `readPointer` accepts the text then writing the path read token by
+        token — `wpL`, a pointer writer that does not refuse number-like member names — gives the
+        text back) and `ptrOKr_of_idxTokens` (the repaired reader is injective). Variants: `_min`,
+        `readPatchDoc_…_all_pointers`, `checkedPatchAll_never_more_permissive`,
+        `readPatchOps_faithful_all_pointers`. `rerender` (section 1) now writes pointers with `wpL`;
+        on paths `writePointer` accepts the two writers agree (`wpL_eq_write`, `wpL_of_write`).
+  T1 `readPatchOps_never_more_permissive` (FloatLaws, FloatEq0; ANY list `ops`; COROLLARY of T0's proof):
         t.wf, t.listDoc, every op value `valueOK`, every op pointer `canonPtr`,
         `readPatchOps ops = .ok d`, `∀ h ∈ d, HunkRange h`, `patchM t d = .ok r`
         ⟹ `∃ r', eval t (ops.map toSpec) = some r' ∧ untag r' = untag r`.
@@ -67,16 +79,16 @@
     `fixed_unrestricted_goal_witness`  the witness that refuted the unrestricted goal is no longer read.
     `loop_alone_…` (five theorems): the OLD statements, kept as documentation of what the element
         loop alone (`readPatchLoop` + `patchM` + `eval`) would do with the same witnesses.
-  ═══ OBSERVATIONS (NOT fixed; JSON Pointer token SYNTAX, outside the grammar C10 quantifies over) ═══
-    `observation_noncanonical_index_tokens`  `readPointer` parses index tokens with `strconv.Atoi`:
-        the tokens `01` and `-1` are accepted (the latter even means "append"), RFC 6901 forbids a
-        leading zero and a sign; `readPatchOps` still accepts, `Patch` applies, RFC 6902 rejects.
-    `observation_invalid_escape_accepted`    the jsonpointer library keeps a `~` not followed by 0 or 1
-        as text (token `~2`); RFC 6901 rejects the pointer.
-    `observation_pointers_not_canonical`, `observation_canonical_pointers_needed`: these pointers
-        violate `canonPtr`, and T1 without `canonPtr` is refuted by the token `01`.
-    The property quantifies over `RenderPatch` output and variations of VALUES, INDICES, HUNKS and
-    CONTEXT TESTS of it, never over the spelling of a reference token: hence observations.
+  ═══ REGRESSIONS of D30 (former observations about JSON Pointer token SYNTAX; fixed in v2/pointer.go) ═══
+    `fixed_noncanonical_index_tokens`  the tokens `01` and `-1` (formerly: index 1 / "append", applied
+        to `["a","b"]` where RFC 6902 rejects) are member names: `Patch` fails on the array as the RFC
+        does; on `{}` jd and the RFC both add the member. `fixed_index_token_reading`: the reader on
+        `01`, `-1`, `+1`, `-0`, `-`, `0`, `1`.
+    `fixed_invalid_escape_rejected`    `readPointer` rejects `/~2` and `/a~` (`checkPointerEscapes`).
+    `before_repair_readings_applied`   the diffs the OLD reader built apply where the RFC fails.
+    `fixed_pointers_not_canonical`, `fixed_canonical_pointers_witness`: the pointers are still outside
+        `canonPtr`, but the witness that showed `canonPtr` necessary is no longer one — and the
+        hypothesis is gone (T0).
 
   ═══ THE READER, ONE ELEMENT ═══
   `readPatchHunk_shape`: whenever `readPatchDiffElement` succeeds (values not void), `patch = g ++
@@ -153,6 +165,131 @@ import JdProofs.Common
 namespace Jd.NMP
 open Jd Jd.Spec Jd.PB
 
+/-! ## 0. a pointer writer that does not refuse member names
+
+`writePointer` refuses a member name that `strconv.Atoi` accepts (and the name `-`): such a name cannot
+be told from an index by the OLD reader. Since the repair D30 `readPointer` reads the tokens `01`, `+1`,
+`-1`, `-0`, … as member names, so the reader produces paths `writePointer` refuses. `wpL` is
+`writePointerPath` without that refusal: the text of the path, token by token. -/
+
+def wtokL : PathElem → Option String
+  | .key k => some (ptrEscape k)
+  | .idx i => wtok (.idx i)
+  | _ => none
+
+def wpL : Path → Outcome String
+  | [] => .ok ""
+  | e :: p =>
+    match wtokL e with
+    | some t => (match wpL p with | .ok rest => .ok ("/" ++ t ++ rest) | e' => e')
+    | none => .err
+
+theorem wtokL_of_wtok {e : PathElem} {t : String} (h : wtok e = some t) : wtokL e = some t := by
+  cases e with
+  | key k =>
+    simp only [wtok] at h
+    split at h
+    · cases h
+    · split at h
+      · cases h
+      · exact h
+  | idx i => exact h
+  | _ => simp [wtok] at h
+
+/-- what `writePointerPath` writes, `wpL` writes -/
+theorem wpL_of_write : ∀ {p : Path} {s : String}, writePointerPath p = .ok s → wpL p = .ok s
+  | [], s, h => by rw [writePointerPath_nil] at h; exact h
+  | e :: p, s, h => by
+    rw [writePointerPath_cons] at h
+    cases ht : wtok e with
+    | none => rw [ht] at h; cases h
+    | some t =>
+      rw [ht] at h
+      cases hp : writePointerPath p with
+      | err => rw [hp] at h; cases h
+      | panic => rw [hp] at h; cases h
+      | ok rest =>
+        rw [hp] at h
+        simp only [wpL, wtokL_of_wtok ht, wpL_of_write hp]
+        exact h
+
+theorem wtokL_some {e : PathElem} {t : String} (h : wtokL e = some t)
+    (hr : ∀ i, e = .idx i → IdxRT i) : t.toList = escChars (elemTok e).toList := by
+  cases e with
+  | key k =>
+    simp only [wtokL] at h
+    injection h with h; subst h
+    exact ptrEscape_toList k
+  | idx i => exact (wtok_some (e := .idx i) h hr).2
+  | _ => simp [wtokL] at h
+
+theorem wpL_ok : ∀ {p : Path} {s : String}, wpL p = .ok s → idxRange p →
+    s.toList = (ptoks p).flatMap (fun t => '/' :: escChars t.toList)
+  | [], s, h, _ => by
+    simp only [wpL] at h; injection h with h; subst h; rfl
+  | e :: p, s, h, hr => by
+    simp only [wpL] at h
+    cases ht : wtokL e with
+    | none => rw [ht] at h; cases h
+    | some t =>
+      rw [ht] at h
+      cases hp : wpL p with
+      | err => rw [hp] at h; cases h
+      | panic => rw [hp] at h; cases h
+      | ok rest =>
+        rw [hp] at h
+        injection h with h; subst h
+        have h2 := wtokL_some ht (fun i hi => hr i (by rw [hi]; exact List.mem_cons_self))
+        have h4 := wpL_ok hp (fun i hi => hr i (List.mem_cons_of_mem _ hi))
+        simp [ptoks, h2, h4]
+
+/-- the member names of the path are names `writePointer` does not refuse -/
+def keysOK (q : Path) : Prop := ∀ k, PathElem.key k ∈ q → atoi? k = none ∧ k ≠ "-"
+
+/-- on such paths the two writers agree -/
+theorem wpL_eq_write : ∀ {q : Path}, keysOK q → wpL q = writePointerPath q
+  | [], _ => rfl
+  | e :: q, h => by
+    rw [writePointerPath_cons]
+    simp only [wpL]
+    rw [wpL_eq_write (q := q) (fun k hk => h k (List.mem_cons_of_mem _ hk))]
+    have : wtokL e = wtok e := by
+      cases e with
+      | key k =>
+        obtain ⟨h1, h2⟩ := h k List.mem_cons_self
+        have h2' : (k == "-") = false := by simpa using h2
+        simp [wtokL, wtok, h1, h2']
+      | idx i => rfl
+      | _ => rfl
+    rw [this]
+    cases wtok e with
+    | none => rfl
+    | some t => cases writePointerPath q <;> rfl
+
+theorem keysOK_setLastIdx {p : Path} (h : keysOK p) (j : Int) : keysOK (setLastIdx p j) := by
+  intro k hk
+  simp only [setLastIdx, List.mem_append, List.mem_singleton] at hk
+  rcases hk with hk | hk
+  · exact h k (List.dropLast_subset _ hk)
+  · cases hk
+
+theorem renderPatchHunkW_wpL {h : Hunk} (hk : keysOK h.path) :
+    renderPatchHunkW wpL h = renderPatchHunk h := by
+  rw [renderPatchHunk_eq_W]
+  have h1 : ∀ j, wpL (setLastIdx h.path j) = writePointerPath (setLastIdx h.path j) :=
+    fun j => wpL_eq_write (keysOK_setLastIdx hk j)
+  unfold renderPatchHunkW ctxOpsW
+  simp only [wpL_eq_write hk, h1]
+
+theorem ptrOKW_wpL {p : Path} (hr : idxRange p) : PtrOKW wpL p := by
+  intro s hs
+  exact parsePointer_of_toList (wpL_ok hs hr)
+
+theorem hunkPtrOKW_of_range {h : Hunk} (hr : HunkRange h) : HunkPtrOKW wpL h where
+  ptr := ptrOKW_wpL (fun i hi => idxRT_of_bound (hr.path i hi))
+  ptrBefore := fun i hi => ptrOKW_wpL (idxRange_setLastIdx hr.path (hr.ctx i hi).1)
+  ptrAfter := fun i hi => ptrOKW_wpL (idxRange_setLastIdx hr.path (hr.ctx i hi).2)
+
 /-! ## 1. what jd itself would write for a diff it has read -/
 
 /-- the operations of one hunk, as `Diff.RenderPatch` writes them, except that a hunk appending to
@@ -161,11 +298,11 @@ open Jd Jd.Spec Jd.PB
     reader keeps consecutive `-` additions in order) -/
 def rerenderHunk (h : Hunk) : Outcome (List PatchOp) :=
   if lastIdx? h.path == some (-1) then
-    (match writePointerPath h.path with
+    (match wpL h.path with
      | .ok s => .ok (h.add.map (adp s))
      | .err => .err
      | .panic => .panic)
-  else renderPatchHunk h
+  else renderPatchHunkW wpL h
 
 def rerender : Diff → Outcome (List PatchOp)
   | [] => .ok []
@@ -264,7 +401,7 @@ theorem rerenderHunk_sim (L : FloatLaws) {c r : Json} {h : Hunk} {ops : List Pat
   · rename_i hl
     have hl : lastIdx? h.path = some (-1) := by simpa using hl
     obtain ⟨pp, hpath⟩ := lastIdx_snoc hl
-    cases hs : writePointerPath h.path with
+    cases hs : wpL h.path with
     | err => rw [hs] at er; cases er
     | panic => rw [hs] at er; cases er
     | ok s =>
@@ -272,7 +409,7 @@ theorem rerenderHunk_sim (L : FloatLaws) {c r : Json} {h : Hunk} {ops : List Pat
       injection er with er
       subst er
       have hp : parsePointer s = some (ptoks pp ++ ["-"]) := by
-        have := ptrOK_of_range (fun i hi => idxRT_of_bound (hr.path i hi)) s hs
+        have := ptrOKW_wpL (fun i hi => idxRT_of_bound (hr.path i hi)) s hs
         rw [hpath, ptoks_concat] at this
         exact this
       rw [hpath] at e
@@ -290,8 +427,9 @@ theorem rerenderHunk_sim (L : FloatLaws) {c r : Json} {h : Hunk} {ops : List Pat
       exact ev
   · rename_i hl
     have hl : lastIdx? h.path ≠ some (-1) := by simpa using hl
-    exact renderPatchHunk_correct L hw
-      ⟨hv.remNoVoid, hv.addNoVoid, hv.wfBefore, hv.wfAfter, hv.wfAdd, fun h' => absurd h' hl⟩ hr e er
+    exact renderPatchHunkW_sim L hw
+      ⟨hv.remNoVoid, hv.addNoVoid, hv.wfBefore, hv.wfAfter, hv.wfAdd, fun h' => absurd h' hl⟩
+      (hunkPtrOKW_of_range hr) e er
 
 theorem rerender_ok_cons {h : Hunk} {d : Diff} {ops : List PatchOp}
     (e : rerender (h :: d) = .ok ops) :
@@ -444,8 +582,10 @@ theorem readPointer_strict {s : String} {p : Path} (h : readPointer s = .ok p) :
     injection h with h; subst h; rfl
   · split at h
     · cases h
-    · simp only [newPathM] at h
-      exact newPathM_go_strict _ h
+    · split at h
+      · cases h
+      · simp only [newPathM] at h
+        exact newPathM_go_strict _ h
 
 
 /-- what every hunk the reader builds satisfies when the operations carry real values -/
@@ -1309,6 +1449,35 @@ theorem pathOK'_of_pathOK {p : Path} (h : pathOK p = true) : pathOK' p = true :=
   cases e <;> simp_all [elemOK, elemOK']
   omega
 
+/-- a path element the REPAIRED reader can produce within the range of the model: ANY member name,
+    or an index in [−1, 2^53) -/
+def elemOKr : PathElem → Bool
+  | .key _ => true
+  | .idx i => decide (-1 ≤ i) && decide (i < 2 ^ 53)
+  | _ => false
+
+def pathOKr (p : Path) : Bool := p.all elemOKr
+
+theorem pathOKr_of_pathOK' {p : Path} (h : pathOK' p = true) : pathOKr p = true := by
+  unfold pathOK' at h; unfold pathOKr
+  rw [List.all_eq_true] at h ⊢
+  intro e he
+  have := h e he
+  cases e <;> simp_all [elemOKr, elemOK']
+
+theorem natAbs_of_pathOKr {p : Path} (h : pathOKr p = true) :
+    ∀ i, PathElem.idx i ∈ p → i.natAbs < 2 ^ 53 := by
+  intro i hi
+  have := List.all_eq_true.1 h _ hi
+  simp only [elemOKr, Bool.and_eq_true, decide_eq_true_eq] at this
+  omega
+
+theorem idxRange_of_pathOKr {p : Path} (h : pathOKr p = true) : idxRange p :=
+  fun i hi => floatTrunc_intToFloatBits (natAbs_of_pathOKr h i hi)
+
+theorem pathOKr_append {p q : Path} : pathOKr (p ++ q) = (pathOKr p && pathOKr q) := by
+  simp [pathOKr, List.all_append]
+
 theorem go_tok' {e : PathElem} (he : elemOK' e = true) (r : List Json) :
     newPathM.go (tokJson (elemTok e) :: r) =
       (match newPathM.go r with | .ok p => .ok (e :: p) | e' => e') := by
@@ -1322,7 +1491,7 @@ theorem go_tok' {e : PathElem} (he : elemOK' e = true) (r : List Json) :
       subst this
       have h1 : elemTok (.idx (-1)) = "-" := rfl
       have h2 : tokJson "-" = .num (intToFloatBits (-1)) := by
-        have : atoi? "-" = none := by decide
+        have : indexToken? "-" = none := by decide
         simp [tokJson, this]
       rw [h1, h2]
       simp only [newPathM.go, floatTrunc_intToFloatBits (i := -1) (by decide)]
@@ -1369,7 +1538,8 @@ theorem readPointer_write' {p : Path} {s : String} (hp : pathOK' p = true)
     have hsw : s.startsWith "/" = true := by
       rw [String.startsWith_string_iff, h]
       exact ⟨_, rfl⟩
-    simp only [hne, hsw, Bool.false_eq_true, if_false, Bool.not_true]
+    have hesc : escapesOK s.toList = true := by rw [h]; exact escapesOK_ptrText _
+    simp only [hne, hsw, hesc, Bool.false_eq_true, if_false, Bool.not_true]
     rw [splitOn_slash, h]
     have := splitOnP_tokens (· == '/') '/' (by simp)
       ((t :: r).map (fun t => escChars t.toList)) [] (by simp)
@@ -1517,8 +1687,17 @@ theorem lastIdx_ne_of_PBwfH {h : Hunk} (hw : PBwfH h = true) : (lastIdx? h.path 
     simp only [beq_eq_false_iff_ne, ne_eq, Option.some.injEq]
     omega
 
+theorem keysOK_of_pathOK' {p : Path} (h : pathOK' p = true) : keysOK p := by
+  intro k hk
+  have := List.all_eq_true.1 h _ hk
+  simpa [elemOK'] using this
+
+theorem keysOK_of_PBwfH {h : Hunk} (hw : PBwfH h = true) : keysOK h.path := by
+  simp only [PBwfH, Bool.and_eq_true] at hw
+  exact keysOK_of_pathOK' (pathOK'_of_pathOK hw.1.1.1.1.1.1.2)
+
 theorem rerenderHunk_of_PBwfH {h : Hunk} (hw : PBwfH h = true) : rerenderHunk h = renderPatchHunk h := by
-  simp [rerenderHunk, lastIdx_ne_of_PBwfH hw]
+  simp [rerenderHunk, lastIdx_ne_of_PBwfH hw, renderPatchHunkW_wpL (keysOK_of_PBwfH hw)]
 
 theorem normG_of_PBwfH {h : Hunk} (hw : PBwfH h = true) : normG h = normH h := by
   simp [normG, lastIdx_ne_of_PBwfH hw]
@@ -1570,12 +1749,13 @@ theorem append_loop (L : FloatLaws) {h : Hunk} (hw : appendH h = true) {ops : Li
   have hrem' : h.remove = [] := by simpa using hrem
   unfold rerenderHunk at hr
   simp only [hl, beq_self_eq_true, if_true] at hr
-  cases hws : writePointerPath h.path with
+  cases hws : wpL h.path with
   | err => rw [hws] at hr; cases hr
   | panic => rw [hws] at hr; cases hr
   | ok s =>
     rw [hws] at hr
     injection hr with hr; subst hr
+    rw [wpL_eq_write (keysOK_of_pathOK' hp)] at hws
     have rp := readPointer_write' hp hws
     have heq := pathEq_self' L hp
     have hN : normG h = { path := h.path, add := h.add } := by simp [normG, hl]
@@ -1631,7 +1811,7 @@ theorem ghunk_len {h : Hunk} (hw : GH h = true) {ops : List PatchOp}
     have hrem' : h.remove = [] := by simpa using hrem
     unfold rerenderHunk at hr
     simp only [hl, beq_self_eq_true, if_true] at hr
-    cases hws : writePointerPath h.path with
+    cases hws : wpL h.path with
     | err => rw [hws] at hr; cases hr
     | panic => rw [hws] at hr; cases hr
     | ok s =>
@@ -1698,6 +1878,7 @@ theorem rerenderHunk_normG {h : Hunk} (hw : GH h = true) : rerenderHunk (normG h
     have : (lastIdx? (normH h).path == some (-1)) = false := by
       rw [normH_path]; exact lastIdx_ne_of_PBwfH hP
     simp only [rerenderHunk, this, Bool.false_eq_true, if_false]
+    rw [renderPatchHunkW_wpL (by rw [normH_path]; exact keysOK_of_PBwfH hP)]
     exact renderPatchHunk_normH hP
   | false =>
     have hA : appendH h = true := by simpa [GH, hP] using hw
@@ -1852,29 +2033,29 @@ theorem pathToJson_eq (p : Path) : pathToJson p = .arr .raw (p.map pj) := by
   unfold pathToJson
   congr 1
 
-theorem elem_eq_of_equals (F : FloatEq0) {e e' : PathElem} (he : elemOK' e = true)
-    (he' : elemOK' e' = true) (h : equals [] (pj e) (pj e') = true) : e = e' := by
+theorem elem_eq_of_equals (F : FloatEq0) {e e' : PathElem} (he : elemOKr e = true)
+    (he' : elemOKr e' = true) (h : equals [] (pj e) (pj e') = true) : e = e' := by
   cases e with
   | key k =>
     cases e' with
     | key k' => simp only [pj, equals, beq_iff_eq] at h; rw [h]
     | idx j => simp [pj, equals] at h
-    | _ => simp [elemOK'] at he'
+    | _ => simp [elemOKr] at he'
   | idx i =>
     cases e' with
     | key k' => simp [pj, equals] at h
     | idx j =>
-      simp only [elemOK', Bool.and_eq_true, decide_eq_true_eq] at he he'
+      simp only [elemOKr, Bool.and_eq_true, decide_eq_true_eq] at he he'
       have hi : i.natAbs < 2 ^ 53 := by omega
       have hj : j.natAbs < 2 ^ 53 := by omega
       simp only [pj, equals, precOf] at h
       have := F.eq_of_within0 _ _ (finiteBits_intToFloatBits hi) (finiteBits_intToFloatBits hj)
         (intToFloatBits_ne_negZero hi) (intToFloatBits_ne_negZero hj) h
       rw [intToFloatBits_inj hi hj this]
-    | _ => simp [elemOK'] at he'
-  | _ => simp [elemOK'] at he
+    | _ => simp [elemOKr] at he'
+  | _ => simp [elemOKr] at he
 
-theorem pathEq_eq (F : FloatEq0) : ∀ {p q : Path}, pathOK' p = true → pathOK' q = true →
+theorem pathEq_eq_r (F : FloatEq0) : ∀ {p q : Path}, pathOKr p = true → pathOKr q = true →
     pathEq p q = true → p = q := by
   intro p q hp hq h
   unfold pathEq at h
@@ -1888,9 +2069,14 @@ theorem pathEq_eq (F : FloatEq0) : ∀ {p q : Path}, pathOK' p = true → pathOK
     cases q with
     | nil => simp [equalsList] at h
     | cons e' q =>
-      simp only [pathOK', List.all_cons, Bool.and_eq_true] at hp hq
+      simp only [pathOKr, List.all_cons, Bool.and_eq_true] at hp hq
       simp only [List.map_cons, equalsList, Bool.and_eq_true] at h
       rw [elem_eq_of_equals F hp.1 hq.1 h.1, ih hp.2 hq.2 h.2]
+
+/-- the former statement (paths `writePointer` can express), kept under its name -/
+theorem pathEq_eq (F : FloatEq0) {p q : Path} (hp : pathOK' p = true) (hq : pathOK' q = true)
+    (h : pathEq p q = true) : p = q :=
+  pathEq_eq_r F (pathOKr_of_pathOK' hp) (pathOKr_of_pathOK' hq) h
 
 theorem pathOK'_append {p q : Path} : pathOK' (p ++ q) = (pathOK' p && pathOK' q) := by
   simp [pathOK', List.all_append]
@@ -1923,6 +2109,41 @@ theorem canonPtr_of_write {p : Path} {s : String} (hp : pathOK' p = true)
     (hw : writePointerPath p = .ok s) : canonPtr s = true := by
   simp [canonPtr, readPointer_write' hp hw, hp, hw]
 
+/-- **the pointer hypothesis of the main theorem after the repair D30**: IF `readPointer` accepts the
+    text, THEN the path read consists of member names (any) and indices in [−1, 2^53), and the text is
+    the path written token by token (`wpL`: escaped member names, decimal indices, `-`). A text the
+    reader rejects satisfies it: no accepted patch contains one. It follows from `canonPtr`
+    (`ptrOKr_of_canonPtr`) and — the point — from a condition on the index tokens alone
+    (`ptrOKr_of_idxTokens`, section 7.10): the repaired reader is injective. -/
+def ptrOKr (s : String) : Bool :=
+  match readPointer s with
+  | .ok p => pathOKr p && (match wpL p with | .ok s' => s' == s | _ => false)
+  | _ => true
+
+theorem ptrOKr_ok {s : String} {p : Path} (h : ptrOKr s = true) (hr : readPointer s = .ok p) :
+    pathOKr p = true ∧ wpL p = .ok s := by
+  unfold ptrOKr at h
+  rw [hr] at h
+  simp only [Bool.and_eq_true] at h
+  refine ⟨h.1, ?_⟩
+  cases hw : wpL p with
+  | ok s' => rw [hw] at h; simp only [beq_iff_eq] at h; rw [h.2]
+  | err => rw [hw] at h; simp at h
+  | panic => rw [hw] at h; simp at h
+
+theorem ptrOKr_of_canonPtr {s : String} (h : canonPtr s = true) : ptrOKr s = true := by
+  unfold ptrOKr
+  cases hr : readPointer s with
+  | ok p =>
+    obtain ⟨h1, h2⟩ := canonPtr_ok h hr
+    simp [pathOKr_of_pathOK' h1, wpL_of_write h2]
+  | err => rfl
+  | panic => rfl
+
+theorem ptrOKr_of_write {p : Path} {s : String} (hp : pathOK' p = true)
+    (hw : writePointerPath p = .ok s) : ptrOKr s = true :=
+  ptrOKr_of_canonPtr (canonPtr_of_write hp hw)
+
 /-! ### 7.3 the operations consumed for one diff element -/
 
 def ctxList (c : PatchCtx) : List PatchOp := c.before.toList ++ c.after.toList
@@ -1937,14 +2158,14 @@ def editOps (sp : String) (h : Hunk) : List PatchOp := remPairs sp h.remove ++ a
 def CtxSide (t : Option PatchOp) (l : List Json) : Prop :=
   match t with
   | none => l = [] ∨ l = [.void]
-  | some t => l = [t.value] ∧ t.value.isVoid = false ∧ canonPtr t.path = true
+  | some t => l = [t.value] ∧ t.value.isVoid = false ∧ ptrOKr t.path = true
 
 /-- **the operations `s` the reader consumed for the diff element `h` whose context operations are
     `c`**: up to `OpSim`, the remembered context operations followed by the `test`/`remove` pairs and
     the `add`s at the pointer text `sp` that jd writes for `h.path` -/
 structure SegP (sp : String) (s : List PatchOp) (h : Hunk) (c : PatchCtx) : Prop where
-  wr : writePointerPath h.path = .ok sp
-  pok : pathOK' h.path = true
+  wr : wpL h.path = .ok sp
+  pok : pathOKr h.path = true
   sim : List.Forall₂ OpSim (ctxList c ++ editOps sp h) s
   vals : ∀ v ∈ h.remove ++ h.add, v.isVoid = false
   before : CtxSide c.before h.before
@@ -1982,12 +2203,12 @@ theorem addPart_single {path : Path} {b a : List Json} {v : Json} {m : Bool} {r 
 
 /-- an element that adds one value -/
 theorem segP_add {cx : PatchCtx} {q : PatchOp} {path : Path} {before after : List Json}
-    (hq : q.op = "add") (hp : readPointer q.path = .ok path) (hcan : canonPtr q.path = true)
+    (hq : q.op = "add") (hp : readPointer q.path = .ok path) (hcan : ptrOKr q.path = true)
     (hv : q.value.isVoid = false) (hb : CtxSide cx.before before) (ha : CtxSide cx.after after)
     (happ : lastIdx? path = some (-1) → cx.before = none ∧ cx.after = none) :
     SegP q.path (ctxList cx ++ [q])
       { path := path, before := before, after := after, add := [q.value] } cx := by
-  obtain ⟨hok, hwr⟩ := canonPtr_ok hcan hp
+  obtain ⟨hok, hwr⟩ := ptrOKr_ok hcan hp
   refine ⟨hwr, hok, ?_, ?_, hb, ha, rfl, fun h _ => happ h⟩
   · refine forall₂_append (forall₂_opSim_refl _) ?_
     simp only [editOps, remPairs, List.flatMap_nil, List.nil_append, addPart_single, addRun,
@@ -2000,11 +2221,11 @@ theorem segP_add {cx : PatchCtx} {q : PatchOp} {path : Path} {before after : Lis
 /-- an element that removes one value -/
 theorem segP_rem {cx : PatchCtx} {q r : PatchOp} {path : Path} {before after : List Json}
     (hq : q.op = "test") (hr : r.op = "remove") (hrp : r.path = q.path)
-    (hp : readPointer q.path = .ok path) (hcan : canonPtr q.path = true)
+    (hp : readPointer q.path = .ok path) (hcan : ptrOKr q.path = true)
     (hv : q.value.isVoid = false) (hb : CtxSide cx.before before) (ha : CtxSide cx.after after) :
     SegP q.path (ctxList cx ++ [q, r])
       { path := path, before := before, after := after, remove := [q.value] } cx := by
-  obtain ⟨hok, hwr⟩ := canonPtr_ok hcan hp
+  obtain ⟨hok, hwr⟩ := ptrOKr_ok hcan hp
   refine ⟨hwr, hok, ?_, ?_, hb, ha, rfl, fun _ h => by simp at h⟩
   · refine forall₂_append (forall₂_opSim_refl _) ?_
     have : addPart { path := path, before := before, after := after, remove := [q.value] } = [] := by
@@ -2018,7 +2239,7 @@ theorem segP_rem {cx : PatchCtx} {q r : PatchOp} {path : Path} {before after : L
 
 theorem ctxSide_none_nil : CtxSide none [] := Or.inl rfl
 theorem ctxSide_none_void : CtxSide none [.void] := Or.inr rfl
-theorem ctxSide_some {c : PatchOp} (hv : c.value.isVoid = false) (hc : canonPtr c.path = true) :
+theorem ctxSide_some {c : PatchOp} (hv : c.value.isVoid = false) (hc : ptrOKr c.path = true) :
     CtxSide (some c) [c.value] := ⟨rfl, hv, hc⟩
 
 theorem not_append_of_ctxOK {path : Path} {b a : List Json}
@@ -2031,7 +2252,7 @@ theorem not_append_of_ctxOK {path : Path} {b a : List Json}
 
 /-- every shape is a segment -/
 theorem seg_of_shape {g : List PatchOp} {e : Hunk} {c : PatchCtx} (hs : Shape g e c)
-    (hg : ∀ o ∈ g, o.value.isVoid = false ∧ canonPtr o.path = true) : Seg g e c := by
+    (hg : ∀ o ∈ g, o.value.isVoid = false ∧ ptrOKr o.path = true) : Seg g e c := by
   cases hs with
   | @add q path hq hp =>
     have h := hg q (by simp)
@@ -2091,15 +2312,15 @@ theorem remPairs_append (s : String) (a b : List Json) :
 /-- an `add` element coalesced into the element before it -/
 theorem segP_merge_add (F : FloatEq0) {sp : String} {s : List PatchOp} {last e : Hunk} {c : PatchCtx}
     {q : PatchOp} (hS : SegP sp s last c) (hq : q.op = "add") (hp : readPointer q.path = .ok e.path)
-    (hcan : canonPtr q.path = true) (hv : q.value.isVoid = false)
+    (hcan : ptrOKr q.path = true) (hv : q.value.isVoid = false)
     (hr : e.remove = []) (ha : e.add = [q.value])
     (heq : pathEq last.path e.path = true) :
     SegP sp (s ++ [q])
       { last with remove := last.remove ++ e.remove,
                   add := if lastIdx? e.path == some (-1) then last.add ++ e.add else e.add ++ last.add }
       c := by
-  obtain ⟨hok, hwr⟩ := canonPtr_ok hcan hp
-  have hpath : last.path = e.path := pathEq_eq F hS.pok hok heq
+  obtain ⟨hok, hwr⟩ := ptrOKr_ok hcan hp
+  have hpath : last.path = e.path := pathEq_eq_r F hS.pok hok heq
   have hsp : q.path = sp := by
     have := hS.wr
     rw [hpath, hwr] at this
@@ -2143,15 +2364,15 @@ theorem segP_merge_add (F : FloatEq0) {sp : String} {s : List PatchOp} {last e :
 theorem segP_merge_rem (F : FloatEq0) {sp : String} {s : List PatchOp} {last e : Hunk} {c : PatchCtx}
     {q r : PatchOp} (hS : SegP sp s last c) (hq : q.op = "test") (hrr : r.op = "remove")
     (hrp : r.path = q.path) (hp : readPointer q.path = .ok e.path)
-    (hcan : canonPtr q.path = true) (hv : q.value.isVoid = false)
+    (hcan : ptrOKr q.path = true) (hv : q.value.isVoid = false)
     (hr : e.remove = [q.value]) (ha : e.add = []) (hla : last.add = [])
     (heq : pathEq last.path e.path = true) :
     SegP sp (s ++ [q, r])
       { last with remove := last.remove ++ e.remove,
                   add := if lastIdx? e.path == some (-1) then last.add ++ e.add else e.add ++ last.add }
       c := by
-  obtain ⟨hok, hwr⟩ := canonPtr_ok hcan hp
-  have hpath : last.path = e.path := pathEq_eq F hS.pok hok heq
+  obtain ⟨hok, hwr⟩ := ptrOKr_ok hcan hp
+  have hpath : last.path = e.path := pathEq_eq_r F hS.pok hok heq
   have hsp : q.path = sp := by
     have := hS.wr
     rw [hpath, hwr] at this
@@ -2250,7 +2471,7 @@ theorem hasContext_of_after {e : Hunk} {v : Json} (h : e.after = [v]) (hv : v.is
 /-- one step of the two loops keeps the segments -/
 theorem push_segs (F : FloatEq0) {pre : List PatchOp} {acc : Diff} {cs : List PatchCtx}
     {g : List PatchOp} {e : Hunk} {c0 : PatchCtx} (hS : Segs pre acc cs) (hsh : Shape g e c0)
-    (hg : ∀ o ∈ g, o.value.isVoid = false ∧ canonPtr o.path = true) :
+    (hg : ∀ o ∈ g, o.value.isVoid = false ∧ ptrOKr o.path = true) :
     Segs (pre ++ g) (pushElem acc e) (pushCtx acc e cs c0) := by
   obtain ⟨segs, rfl, rfl, rfl, hall⟩ := hS
   have hnew : Seg g e c0 := seg_of_shape hsh hg
@@ -2325,7 +2546,7 @@ theorem push_segs (F : FloatEq0) {pre : List PatchOp} {acc : Diff} {cs : List Pa
 theorem loops_segs (F : FloatEq0) : ∀ (fuel : Nat) (patch : List PatchOp) (acc d : Diff)
     (cs cs' : List PatchCtx) (pre : List PatchOp),
     readPatchLoop fuel patch acc = .ok d → readPatchCtxLoop fuel patch acc cs = .ok cs' →
-    (∀ o ∈ patch, o.value.isVoid = false ∧ canonPtr o.path = true) →
+    (∀ o ∈ patch, o.value.isVoid = false ∧ ptrOKr o.path = true) →
     Segs pre acc cs → Segs (pre ++ patch) d cs'
   | 0, _, _, _, _, _, _, h, _, _, _ => by simp [readPatchLoop] at h
   | fuel + 1, [], acc, d, cs, cs', pre, h, h', _, hS => by
@@ -2345,10 +2566,10 @@ theorem loops_segs (F : FloatEq0) : ∀ (fuel : Nat) (patch : List PatchOp) (acc
       rw [hr] at h h'
       simp only at h h'
       obtain ⟨g, hg, hsh⟩ := readPatchHunk_shape hr (fun o ho => (hv o ho).1)
-      have hgv : ∀ o ∈ g, o.value.isVoid = false ∧ canonPtr o.path = true := by
+      have hgv : ∀ o ∈ g, o.value.isVoid = false ∧ ptrOKr o.path = true := by
         intro o' ho'
         exact hv o' (by rw [hg]; exact List.mem_append_left _ ho')
-      have hrv : ∀ o ∈ rest, o.value.isVoid = false ∧ canonPtr o.path = true := by
+      have hrv : ∀ o ∈ rest, o.value.isVoid = false ∧ ptrOKr o.path = true := by
         intro o' ho'
         exact hv o' (by rw [hg]; exact List.mem_append_right _ ho')
       have := loops_segs F fuel rest _ d _ cs' (pre ++ g) h h' hrv (push_segs F hS hsh hgv)
@@ -2387,10 +2608,10 @@ theorem checkPatchCtx_ok {h : Hunk} {c : PatchCtx} (hk : checkPatchCtx h c = .ok
     `j ≥ 0`, and the pointer of the test is the text jd writes for the element's path with its last
     index moved to `j + offset` -/
 theorem ctxTestOK_true (F : FloatEq0) {h : Hunk} {t : PatchOp} {off : Int}
-    (hpok : pathOK' h.path = true) (hcan : canonPtr t.path = true)
+    (hpok : pathOKr h.path = true) (hcan : ptrOKr t.path = true)
     (hk : ctxTestOK h t off = .ok true) :
     t.op = "test" ∧ ∃ j, lastIdx? h.path = some j ∧ 0 ≤ j ∧
-      writePointerPath (setLastIdx h.path (j + off)) = .ok t.path := by
+      wpL (setLastIdx h.path (j + off)) = .ok t.path := by
   unfold ctxTestOK at hk
   cases hr : readPointer t.path with
   | err => rw [hr] at hk; cases hk
@@ -2399,7 +2620,7 @@ theorem ctxTestOK_true (F : FloatEq0) {h : Hunk} {t : PatchOp} {off : Int}
     rw [hr] at hk
     simp only at hk
     injection hk with hk
-    obtain ⟨hok, hwr⟩ := canonPtr_ok hcan hr
+    obtain ⟨hok, hwr⟩ := ptrOKr_ok hcan hr
     simp only [Bool.and_eq_true, beq_iff_eq] at hk
     obtain ⟨⟨⟨hop, _⟩, hlen⟩, hm⟩ := hk
     refine ⟨hop, ?_⟩
@@ -2416,8 +2637,8 @@ theorem ctxTestOK_true (F : FloatEq0) {h : Hunk} {t : PatchOp} {off : Int}
         obtain ⟨hp, hhp⟩ := lastIdx_snoc hj
         rw [hhp] at heq hpok ⊢
         simp only [List.dropLast_concat] at heq
-        rw [pathOK'_append, Bool.and_eq_true] at hok hpok
-        have : pp = hp := pathEq_eq F hok.1 hpok.1 heq
+        rw [pathOKr_append, Bool.and_eq_true] at hok hpok
+        have : pp = hp := pathEq_eq_r F hok.1 hpok.1 heq
         subst this
         refine ⟨j, rfl, hj0, ?_⟩
         rw [setLastIdx_concat, ← hij]
@@ -2425,13 +2646,13 @@ theorem ctxTestOK_true (F : FloatEq0) {h : Hunk} {t : PatchOp} {off : Int}
 
 /-- the context test jd writes for a context line = the operation the reader remembered for it -/
 theorem ctxOps_of_side (F : FloatEq0) {h : Hunk} {t : Option PatchOp} {l : List Json} {off : Int}
-    {f : Int → Int} (hf : ∀ i, f i = i + off) (hpok : pathOK' h.path = true) (hs : CtxSide t l)
-    (hk : checkOne h t off = .ok ()) : ctxOps h l f = .ok t.toList ∧ l.length ≤ 1 := by
+    {f : Int → Int} (hf : ∀ i, f i = i + off) (hpok : pathOKr h.path = true) (hs : CtxSide t l)
+    (hk : checkOne h t off = .ok ()) : ctxOpsW wpL h l f = .ok t.toList ∧ l.length ≤ 1 := by
   cases t with
   | none =>
     rcases hs with rfl | rfl
     · exact ⟨rfl, by simp⟩
-    · exact ⟨by simp [ctxOps, Json.isVoid], by simp⟩
+    · exact ⟨by simp [ctxOpsW, Json.isVoid], by simp⟩
   | some t =>
     obtain ⟨rfl, hv, hcan⟩ := hs
     refine ⟨?_, by simp⟩
@@ -2446,7 +2667,7 @@ theorem ctxOps_of_side (F : FloatEq0) {h : Hunk} {t : Option PatchOp} {l : List 
       | true =>
         obtain ⟨hop, j, hj, _, hwr⟩ := ctxTestOK_true F hpok hcan hc
         have hne : h.path.isEmpty = false := isEmpty_of_lastIdx hj
-        simp only [ctxOps, hv, Bool.false_eq_true, if_false, hne, hj, hf, hwr]
+        simp only [ctxOpsW, hv, Bool.false_eq_true, if_false, hne, hj, hf, hwr]
         cases t
         simp only at hop
         subst hop
@@ -2473,8 +2694,7 @@ theorem seg_rerender (F : FloatEq0) {s : List PatchOp} {h : Hunk} {c : PatchCtx}
     have hl' : (lastIdx? h.path == some (-1)) = false := by simpa using hl
     refine ⟨ctxList c ++ editOps sp h, ?_, hS.sim⟩
     simp only [rerenderHunk, hl', Bool.false_eq_true, if_false]
-    rw [renderPatchHunk_eq]
-    unfold renderPatchHunk'
+    unfold renderPatchHunkW
     have h1 : ¬ h.before.length > 1 := by omega
     have h2 : ¬ h.after.length > 1 := by omega
     simp only [hS.wr, Outcome.bind_ok, hS.nonEmpty, Bool.false_eq_true, if_false, h1, h2, hb, ha]
@@ -2578,8 +2798,8 @@ theorem applyStrictAll_append_remove : ∀ (d : Diff) {n r : Json}, applyStrictA
 /-- **every patch the new reader accepts is faithful** (canonical pointer texts; the elements at the
     append index do not remove): re-rendering the diff that was read gives the operations back, up
     to the ignored value member of `remove` operations -/
-theorem readPatchOps_faithful (F : FloatEq0) {ops : List PatchOp} {d : Diff}
-    (hv : ∀ o ∈ ops, o.value.isVoid = false) (hc : ∀ o ∈ ops, canonPtr o.path = true)
+theorem readPatchOps_faithful_r (F : FloatEq0) {ops : List PatchOp} {d : Diff}
+    (hv : ∀ o ∈ ops, o.value.isVoid = false) (hc : ∀ o ∈ ops, ptrOKr o.path = true)
     (hread : readPatchOps ops = .ok d)
     (happ : ∀ h ∈ d, lastIdx? h.path = some (-1) → h.remove = []) : Faithful d ops := by
   obtain ⟨h1, cs, h2, h3⟩ := readPatchOps_ok hread
@@ -2591,9 +2811,9 @@ theorem readPatchOps_faithful (F : FloatEq0) {ops : List PatchOp} {d : Diff}
   exact faithful_of_segs F segs hall h3 (fun x hx => happ x.2.1 (List.mem_map.2 ⟨x, hx, rfl⟩))
 
 /-- the paths of the elements read from canonical pointers consist of keys and indices in [−1, 2^53) -/
-theorem readPatchOps_pathOK (F : FloatEq0) {ops : List PatchOp} {d : Diff}
-    (hv : ∀ o ∈ ops, o.value.isVoid = false) (hc : ∀ o ∈ ops, canonPtr o.path = true)
-    (hread : readPatchOps ops = .ok d) : ∀ h ∈ d, pathOK' h.path = true := by
+theorem readPatchOps_pathOKr (F : FloatEq0) {ops : List PatchOp} {d : Diff}
+    (hv : ∀ o ∈ ops, o.value.isVoid = false) (hc : ∀ o ∈ ops, ptrOKr o.path = true)
+    (hread : readPatchOps ops = .ok d) : ∀ h ∈ d, pathOKr h.path = true := by
   obtain ⟨h1, cs, h2, _⟩ := readPatchOps_ok hread
   have hS := loops_segs F (ops.length + 1) ops [] d [] cs [] h1 h2 (fun o ho => ⟨hv o ho, hc o ho⟩)
     ⟨[], rfl, rfl, rfl, by simp⟩
@@ -2605,11 +2825,11 @@ theorem readPatchOps_pathOK (F : FloatEq0) {ops : List PatchOp} {d : Diff}
 
 /-- on such a path the hypothesis `HunkRange` only says that the index of the after-context line,
     `i + |Remove|`, is below 2^53 -/
-theorem hunkRange_of_pathOK' {h : Hunk} (hp : pathOK' h.path = true)
+theorem hunkRange_of_pathOKr {h : Hunk} (hp : pathOKr h.path = true)
     (hb : ∀ i, lastIdx? h.path = some i → i + (h.remove.length : Int) < 2 ^ 53) : HunkRange h := by
-  refine ⟨natAbs_of_pathOK' hp, fun i hi => ?_⟩
+  refine ⟨natAbs_of_pathOKr hp, fun i hi => ?_⟩
   have := List.all_eq_true.1 hp _ (mem_of_lastIdx hi)
-  simp only [elemOK', Bool.and_eq_true, decide_eq_true_eq] at this
+  simp only [elemOKr, Bool.and_eq_true, decide_eq_true_eq] at this
   have := hb i hi
   omega
 
@@ -2618,9 +2838,9 @@ theorem valueOK_not_void {v : Json} (h : valueOK v = true) : v.isVoid = false :=
   exact h.1.1
 
 /-- **C10, never more permissive — every operation list the reader accepts.** -/
-theorem readPatchOps_never_more_permissive (L : FloatLaws) (F : FloatEq0) {ops : List PatchOp}
+theorem readPatchOps_never_more_permissive_r (L : FloatLaws) (F : FloatEq0) {ops : List PatchOp}
     {d : Diff} {t r : Json} (hw : t.wf = true) (hl : t.listDoc = true)
-    (hv : ∀ o ∈ ops, valueOK o.value = true) (hc : ∀ o ∈ ops, canonPtr o.path = true)
+    (hv : ∀ o ∈ ops, valueOK o.value = true) (hc : ∀ o ∈ ops, ptrOKr o.path = true)
     (hread : readPatchOps ops = .ok d) (hrange : ∀ h ∈ d, HunkRange h)
     (hp : patchM t d = .ok r) :
     ∃ r', eval t (ops.map PatchOp.toSpec) = some r' ∧ untag r' = untag r := by
@@ -2629,10 +2849,27 @@ theorem readPatchOps_never_more_permissive (L : FloatLaws) (F : FloatEq0) {ops :
   have hd : d.all (fun h => !h.merge && strictPath h.path && hunkListDoc h) = true :=
     List.all_eq_true.2 (fun h hm => readHunk_strictOK (hR h hm))
   obtain ⟨m, hm, _⟩ := strictAll_result true t d hd hl r hp
-  have hf := readPatchOps_faithful F (fun o ho => valueOK_not_void (hv o ho)) hc hread
+  have hf := readPatchOps_faithful_r F (fun o ho => valueOK_not_void (hv o ho)) hc hread
     (applyStrictAll_append_remove d hm)
   exact read_patch_never_more_permissive L hw hl hv hloop hf hrange hp
 
+
+/-- `readPatchOps_faithful_r` under the stronger, former hypothesis `canonPtr` (the text jd writes) -/
+theorem readPatchOps_faithful (F : FloatEq0) {ops : List PatchOp} {d : Diff}
+    (hv : ∀ o ∈ ops, o.value.isVoid = false) (hc : ∀ o ∈ ops, canonPtr o.path = true)
+    (hread : readPatchOps ops = .ok d)
+    (happ : ∀ h ∈ d, lastIdx? h.path = some (-1) → h.remove = []) : Faithful d ops :=
+  readPatchOps_faithful_r F hv (fun o ho => ptrOKr_of_canonPtr (hc o ho)) hread happ
+
+/-- `readPatchOps_never_more_permissive_r` under the stronger, former hypothesis `canonPtr` -/
+theorem readPatchOps_never_more_permissive (L : FloatLaws) (F : FloatEq0) {ops : List PatchOp}
+    {d : Diff} {t r : Json} (hw : t.wf = true) (hl : t.listDoc = true)
+    (hv : ∀ o ∈ ops, valueOK o.value = true) (hc : ∀ o ∈ ops, canonPtr o.path = true)
+    (hread : readPatchOps ops = .ok d) (hrange : ∀ h ∈ d, HunkRange h)
+    (hp : patchM t d = .ok r) :
+    ∃ r', eval t (ops.map PatchOp.toSpec) = some r' ∧ untag r' = untag r :=
+  readPatchOps_never_more_permissive_r L F hw hl hv (fun o ho => ptrOKr_of_canonPtr (hc o ho)) hread
+    hrange hp
 
 /-! ### 7.9 canonical pointers in terms of RFC 6901 -/
 
@@ -2864,9 +3101,10 @@ theorem readPatchOps_never_more_permissive_rfc6901 (L : FloatLaws) (F : FloatEq0
     (hp : patchM t d = .ok r) :
     ∃ r', eval t (ops.map PatchOp.toSpec) = some r' ∧ untag r' = untag r := by
   have hc' : ∀ o ∈ ops, canonPtr o.path = true := fun o ho => canonPtr_of_canonicalPointer (hc o ho)
-  have hpok := readPatchOps_pathOK F (fun o ho => valueOK_not_void (hv o ho)) hc' hread
+  have hpok := readPatchOps_pathOKr F (fun o ho => valueOK_not_void (hv o ho))
+    (fun o ho => ptrOKr_of_canonPtr (hc' o ho)) hread
   exact readPatchOps_never_more_permissive L F hw hl hv hc' hread
-    (fun h hm => hunkRange_of_pathOK' (hpok h hm) (hafter h hm)) hp
+    (fun h hm => hunkRange_of_pathOKr (hpok h hm) (hafter h hm)) hp
 
 /-! ## 8. parse-back and the grammar with the reader after the fix -/
 
@@ -2934,6 +3172,7 @@ theorem ctxOps_side {h : Hunk} {ctx : List Json} {f : Int → Int} {bo : List Pa
 /-- the elements for which the check can be replayed: an element at the append index has no
     context lines and removes nothing, the others end in an index `0 ≤ i`, `i + |Remove| < 2^53` -/
 structure CheckDom (h : Hunk) : Prop where
+  pok : pathOK' h.path = true
   app : lastIdx? h.path = some (-1) → h.remove = [] ∧ h.before = [] ∧ h.after = []
   idx : ∀ i, lastIdx? h.path = some i → i ≠ -1 → 0 ≤ i ∧ i + (h.remove.length : Int) < 2 ^ 53
 
@@ -2957,8 +3196,9 @@ theorem seg_length {sp : String} {s a : List PatchOp} {h : Hunk} {c : PatchCtx} 
     simp [ctxList, ctxSide_nil hcb, ctxSide_nil hca, editOps, hrem, remPairs, addRun, addPart, hl]
   · have hl' : (lastIdx? h.path == some (-1)) = false := by simpa using hl
     simp only [rerenderHunk, hl', Bool.false_eq_true, if_false] at hr
+    rw [renderPatchHunkW_wpL (keysOK_of_pathOK' hD.pok)] at hr
     obtain ⟨s', bo, ao, hw, _, _, _, hbo, hao, rfl⟩ := renderPatchHunk_ok hr
-    rw [hS.wr] at hw; injection hw with hw; subst hw
+    rw [← wpL_eq_write (keysOK_of_pathOK' hD.pok), hS.wr] at hw; injection hw with hw; subst hw
     rw [remOpsOf_eq (fun x hx => hvals x (Or.inl hx)), addOpsOf_eq (fun x hx => hvals x (Or.inr hx))]
     simp [ctxList, editOps, remPairs, addRun, addPart, hl', (ctxOps_side hbo hS.before).1,
       (ctxOps_side hao hS.after).1]
@@ -2995,6 +3235,7 @@ theorem seg_check (L : FloatLaws) {sp : String} {a : List PatchOp} {h : Hunk} {c
     rfl
   · have hl' : (lastIdx? h.path == some (-1)) = false := by simpa using hl
     simp only [rerenderHunk, hl', Bool.false_eq_true, if_false] at hr
+    rw [renderPatchHunkW_wpL (keysOK_of_pathOK' hD.pok)] at hr
     obtain ⟨s', bo, ao, hw, _, _, _, hbo, hao, rfl⟩ := renderPatchHunk_ok hr
     have hsim := hS.sim
     simp only [ctxList, List.append_assoc] at hsim
@@ -3002,9 +3243,9 @@ theorem seg_check (L : FloatLaws) {sp : String} {a : List PatchOp} {h : Hunk} {c
     obtain ⟨hsa, _⟩ := forall₂_append_inv hsim (ctxOps_side hao hS.after).1.symm
     have hidx : ∀ i, lastIdx? h.path = some i → 0 ≤ i ∧ i + (h.remove.length : Int) < 2 ^ 53 :=
       fun i hi => hD.idx i hi (fun e => hl (e ▸ hi))
-    have h1 := checkOne_of_written L (off := -1) (fun i => by omega) hS.pok hbo hS.before hsb
+    have h1 := checkOne_of_written L (off := -1) (fun i => by omega) hD.pok hbo hS.before hsb
       (fun i hi => by have := hidx i hi; omega)
-    have h2 := checkOne_of_written L (off := (h.remove.length : Int)) (fun i => rfl) hS.pok hao
+    have h2 := checkOne_of_written L (off := (h.remove.length : Int)) (fun i => rfl) hD.pok hao
       hS.after hsa (fun i hi => by have := hidx i hi; omega)
     rw [checkPatchCtx_eq, h1]
     exact h2
@@ -3098,12 +3339,13 @@ theorem ghunk_opOK {h : Hunk} (hw : GH h = true) {ops : List PatchOp}
     obtain ⟨⟨⟨⟨⟨_, hp⟩, hl⟩, _⟩, _⟩, hS⟩ := hA
     unfold rerenderHunk at hr
     simp only [hl, beq_self_eq_true, if_true] at hr
-    cases hws : writePointerPath h.path with
+    cases hws : wpL h.path with
     | err => rw [hws] at hr; cases hr
     | panic => rw [hws] at hr; cases hr
     | ok s =>
       rw [hws] at hr
       injection hr with hr; subst hr
+      rw [wpL_eq_write (keysOK_of_pathOK' hp)] at hws
       intro o ho
       obtain ⟨x, hx, rfl⟩ := List.mem_map.1 ho
       have hxv : x.isVoid = false := by simpa using List.all_eq_true.1 hS x hx
@@ -3130,6 +3372,7 @@ theorem checkDom_normG {h : Hunk} (hw : GH h = true) : CheckDom (normG h) := by
     simp only [PBwfH, Bool.and_eq_true, Bool.not_eq_true', decide_eq_true_eq] at hP
     obtain ⟨⟨⟨⟨⟨⟨⟨_, hp⟩, _⟩, _⟩, _⟩, _⟩, _⟩, hcase⟩ := hP
     constructor
+    · rw [normH_path]; exact pathOK'_of_pathOK hp
     · intro hl
       rw [normH_path] at hl
       rw [hl] at hne
@@ -3144,10 +3387,11 @@ theorem checkDom_normG {h : Hunk} (hw : GH h = true) : CheckDom (normG h) := by
   | false =>
     have hA : appendH h = true := by simpa [GH, hP] using hw
     simp only [appendH, Bool.and_eq_true, Bool.not_eq_true', beq_iff_eq] at hA
-    obtain ⟨⟨⟨⟨⟨_, _⟩, hl⟩, _⟩, _⟩, _⟩ := hA
+    obtain ⟨⟨⟨⟨⟨_, hpk⟩, hl⟩, _⟩, _⟩, _⟩ := hA
     have hN : normG h = { path := h.path, add := h.add } := by simp [normG, hl]
     rw [hN]
     constructor
+    · exact hpk
     · intro _; exact ⟨rfl, rfl, rfl⟩
     · intro i hi hne
       simp only at hi
@@ -3164,7 +3408,8 @@ theorem readPatchOps_rerender (L : FloatLaws) (F : FloatEq0) (d0 : Diff) (hG : G
   have h1 := readPatch_rerender L d0 hG ops h
   simp only [Gwf, Bool.and_eq_true] at hG
   obtain ⟨cs, h2⟩ := readPatchCtxLoop_ok (ops.length + 1) ops [] _ [] h1
-  have hS := loops_segs F (ops.length + 1) ops [] _ [] cs [] h1 h2 (gdiff_opOK hG.1 h)
+  have hS := loops_segs F (ops.length + 1) ops [] _ [] cs [] h1 h2
+    (fun o ho => ⟨(gdiff_opOK hG.1 h o ho).1, ptrOKr_of_canonPtr (gdiff_opOK hG.1 h o ho).2⟩)
     ⟨[], rfl, rfl, rfl, by simp⟩
   obtain ⟨segs, hpre, hd, rfl, hall⟩ := hS
   simp only [List.nil_append] at hpre
@@ -3327,7 +3572,8 @@ theorem grammar_checkedPatch (L : FloatLaws) (F : FloatEq0) {d0 : Diff} {ops : L
 /-- `readPointer` on a text `/t₁/t₂…` given by its raw tokens -/
 theorem readPointer_of_toks {s : String} {toks : List String} (hne : toks ≠ [])
     (h : s.toList = toks.flatMap (fun t => '/' :: t.toList))
-    (hns : ∀ t ∈ toks, ∀ x ∈ t.toList, (x == '/') = false) :
+    (hns : ∀ t ∈ toks, ∀ x ∈ t.toList, (x == '/') = false)
+    (hesc : escapesOK s.toList = true) :
     readPointer s = newPathM (.arr .raw (toks.map (fun t => tokJson (ptrUnescape t)))) := by
   rw [readPointer_eq]
   cases toks with
@@ -3339,7 +3585,7 @@ theorem readPointer_of_toks {s : String} {toks : List String} (hne : toks ≠ []
     have hsw : s.startsWith "/" = true := by
       rw [String.startsWith_string_iff, h]
       exact ⟨_, rfl⟩
-    simp only [hne', hsw, Bool.false_eq_true, if_false, Bool.not_true]
+    simp only [hne', hsw, hesc, Bool.false_eq_true, if_false, Bool.not_true]
     rw [splitOn_slash, h]
     have := splitOnP_tokens (· == '/') '/' (by simp) ((t :: r).map String.toList) [] (by simp)
       (by
@@ -3367,10 +3613,10 @@ theorem go_str (k : String) (r : List Json) :
       (match newPathM.go r with | .ok p => .ok (.key k :: p) | e' => e') := by
   simp only [newPathM.go]; cases newPathM.go r <;> rfl
 
-theorem tokJson_of_atoi {t : String} {i : Int} (h : atoi? t = some i) :
+theorem tokJson_of_atoi {t : String} {i : Int} (h : indexToken? t = some i) :
     tokJson t = .num (intToFloatBits i) := by simp [tokJson, h]
 
-theorem tokJson_of_key {t : String} (h : atoi? t = none) (h2 : (t == "-") = false) :
+theorem tokJson_of_key {t : String} (h : indexToken? t = none) (h2 : (t == "-") = false) :
     tokJson t = .str t := by simp [tokJson, h, h2]
 
 theorem patchM_of_ref {t m : Json} {d : Diff}
@@ -3384,14 +3630,14 @@ theorem patchM_of_ref {t m : Json} {d : Diff}
 /-! pointers of the witnesses -/
 
 theorem rp_a0 : readPointer "/a/0" = .ok [.key "a", .idx 0] := by
-  rw [readPointer_of_toks (toks := ["a", "0"]) (by simp) (by decide) (by decide)]
+  rw [readPointer_of_toks (toks := ["a", "0"]) (by simp) (by decide) (by decide) (by decide)]
   simp only [List.map_cons, List.map_nil, show ptrUnescape "a" = "a" by decide,
     show ptrUnescape "0" = "0" by decide,
     tokJson_of_key (t := "a") (by decide) (by decide), tokJson_of_atoi (t := "0") (i := 0) (by decide),
     newPathM, go_str, newPathM.go, floatTrunc_intToFloatBits (i := 0) (by decide)]
 
 theorem rp_b1 : readPointer "/b/1" = .ok [.key "b", .idx 1] := by
-  rw [readPointer_of_toks (toks := ["b", "1"]) (by simp) (by decide) (by decide)]
+  rw [readPointer_of_toks (toks := ["b", "1"]) (by simp) (by decide) (by decide) (by decide)]
   simp only [List.map_cons, List.map_nil, show ptrUnescape "b" = "b" by decide,
     show ptrUnescape "1" = "1" by decide,
     tokJson_of_key (t := "b") (by decide) (by decide), tokJson_of_atoi (t := "1") (i := 1) (by decide),
@@ -3427,27 +3673,49 @@ theorem w1_rfc : eval w1Doc (w1Ops.map PatchOp.toSpec) = none := by
 /-- a one-token pointer whose token `strconv.Atoi` accepts -/
 theorem rp_single {s tok : String} {i : Int} (h : s.toList = '/' :: tok.toList)
     (hns : ∀ x ∈ tok.toList, (x == '/') = false) (hu : ptrUnescape tok = tok)
-    (ha : atoi? tok = some i) (hi : i.natAbs < 2 ^ 53) : readPointer s = .ok [.idx i] := by
-  rw [readPointer_of_toks (toks := [tok]) (by simp) (by simpa using h) (by simpa using hns)]
+    (ha : indexToken? tok = some i) (hi : i.natAbs < 2 ^ 53)
+    (hesc : escapesOK s.toList = true) : readPointer s = .ok [.idx i] := by
+  rw [readPointer_of_toks (toks := [tok]) (by simp) (by simpa using h) (by simpa using hns) hesc]
   simp only [List.map_cons, List.map_nil, hu, tokJson_of_atoi ha, newPathM, newPathM.go,
     floatTrunc_intToFloatBits hi]
 
 theorem rp_0 : readPointer "/0" = .ok [.idx 0] :=
-  rp_single (tok := "0") (by decide) (by decide) (by decide) (by decide) (by decide)
+  rp_single (tok := "0") (by decide) (by decide) (by decide) (by decide) (by decide) (by decide)
 theorem rp_1 : readPointer "/1" = .ok [.idx 1] :=
-  rp_single (tok := "1") (by decide) (by decide) (by decide) (by decide) (by decide)
+  rp_single (tok := "1") (by decide) (by decide) (by decide) (by decide) (by decide) (by decide)
 theorem rp_2 : readPointer "/2" = .ok [.idx 2] :=
-  rp_single (tok := "2") (by decide) (by decide) (by decide) (by decide) (by decide)
+  rp_single (tok := "2") (by decide) (by decide) (by decide) (by decide) (by decide) (by decide)
 theorem rp_3 : readPointer "/3" = .ok [.idx 3] :=
-  rp_single (tok := "3") (by decide) (by decide) (by decide) (by decide) (by decide)
+  rp_single (tok := "3") (by decide) (by decide) (by decide) (by decide) (by decide) (by decide)
 theorem rp_5 : readPointer "/5" = .ok [.idx 5] :=
-  rp_single (tok := "5") (by decide) (by decide) (by decide) (by decide) (by decide)
-/-- `strconv.Atoi` accepts a leading zero … -/
-theorem rp_01 : readPointer "/01" = .ok [.idx 1] :=
-  rp_single (tok := "01") (by decide) (by decide) (by decide) (by decide) (by decide)
-/-- … and a sign: the pointer slash-minus-one is read as the append index -/
-theorem rp_m1 : readPointer "/-1" = .ok [.idx (-1)] :=
-  rp_single (tok := "-1") (by decide) (by decide) (by decide) (by decide) (by decide)
+  rp_single (tok := "5") (by decide) (by decide) (by decide) (by decide) (by decide) (by decide)
+/-- a one-token pointer whose token is not an RFC 6901 array index and not `-`: a member name -/
+theorem rp_single_key {s tok : String} (h : s.toList = '/' :: tok.toList)
+    (hns : ∀ x ∈ tok.toList, (x == '/') = false) (hu : ptrUnescape tok = tok)
+    (ha : indexToken? tok = none) (hd : (tok == "-") = false)
+    (hesc : escapesOK s.toList = true) : readPointer s = .ok [.key tok] := by
+  rw [readPointer_of_toks (toks := [tok]) (by simp) (by simpa using h) (by simpa using hns) hesc]
+  simp only [List.map_cons, List.map_nil, hu, tokJson_of_key ha hd, newPathM, newPathM.go]
+
+/-- D30, repaired: `strconv.Atoi` accepts a leading zero, but `strconv.Itoa(1) ≠ "01"`: the token is a
+    member name … -/
+theorem rp_01 : readPointer "/01" = .ok [.key "01"] :=
+  rp_single_key (tok := "01") (by decide) (by decide) (by decide) (by decide) (by decide) (by decide)
+/-- … and so is a token with a sign: the pointer slash-minus-one is no longer the append index -/
+theorem rp_m1 : readPointer "/-1" = .ok [.key "-1"] :=
+  rp_single_key (tok := "-1") (by decide) (by decide) (by decide) (by decide) (by decide) (by decide)
+theorem rp_p1 : readPointer "/+1" = .ok [.key "+1"] :=
+  rp_single_key (tok := "+1") (by decide) (by decide) (by decide) (by decide) (by decide) (by decide)
+theorem rp_m0 : readPointer "/-0" = .ok [.key "-0"] :=
+  rp_single_key (tok := "-0") (by decide) (by decide) (by decide) (by decide) (by decide) (by decide)
+/-- the token `-` alone is still the append index -/
+theorem rp_dash : readPointer "/-" = .ok [.idx (-1)] := by
+  rw [readPointer_of_toks (toks := ["-"]) (by simp) (by decide) (by decide) (by decide)]
+  have h1 : tokJson "-" = .num (intToFloatBits (-1)) := by
+    have : indexToken? "-" = none := by decide
+    simp [tokJson, this]
+  simp only [List.map_cons, List.map_nil, show ptrUnescape "-" = "-" by decide, h1, newPathM,
+    newPathM.go, floatTrunc_intToFloatBits (i := -1) (by decide)]
 
 theorem pp_0 : parsePointer "/0" = some ["0"] := parsePointer_of_toList (by decide)
 theorem pp_1 : parsePointer "/1" = some ["1"] := parsePointer_of_toList (by decide)
@@ -3505,50 +3773,109 @@ theorem w3_rfc : eval w3Doc (w3Ops.map PatchOp.toSpec) = none := by
   simp [w3Ops, w3Doc, eval, evalOp, PatchOp.toSpec, tst, adp, pp_0, getP,
     show arrayIndex? "0" = some 0 by decide, equivB, Json.isVoid]
 
-/-! ### W4, W5: array index tokens RFC 6901 does not allow (leading zero, sign) are accepted -/
+/-! ### W4, W5 (D30, repaired): array index tokens RFC 6901 does not allow (leading zero, sign)
+
+Before the repair `readPointer` made an index of every token `strconv.Atoi` accepts: `w4Ops` was read
+as `w4DiffOld` (insert at index 1) and `w5Ops` as `w5DiffOld` (append), jd applied both to
+`["a","b"]` and RFC 6902 rejects both. Now the tokens are member names. -/
+
+theorem patchM_err_of_ref {t : Json} {d : Diff}
+    (hd : d.all (fun h => !h.merge && strictPath h.path && hunkListDoc h) = true)
+    (hn : t.listDoc = true) (h : applyStrictAll t d = none) : patchM t d = .err :=
+  (strictAll_rejects_iff true t d hd hn).2 h
 
 def w4Ops : List PatchOp := [adp "/01" (.str "x")]
 def w4Doc : Json := .arr .raw [.str "a", .str "b"]
-def w4Diff : Diff := [{ path := [.idx 1], add := [.str "x"] }]
+/-- what the reader made of `w4Ops` before the repair -/
+def w4DiffOld : Diff := [{ path := [.idx 1], add := [.str "x"] }]
+/-- what the repaired reader makes of it: the member name `01` -/
+def w4Diff : Diff := [{ path := [.key "01"], add := [.str "x"] }]
 
 theorem w4_read : readPatchLoop (w4Ops.length + 1) w4Ops [] = .ok w4Diff := by
   simp [w4Ops, w4Diff, readPatchLoop, readPatchHunk, rp_01, lastIdx?, adp]
 
-theorem w4_patch : ∃ r, patchM w4Doc w4Diff = .ok r ∧
+/-- the old reading applied (kept: this is what made the patch MORE PERMISSIVE than the RFC) -/
+theorem w4_patch_old : ∃ r, patchM w4Doc w4DiffOld = .ok r ∧
     untag r = .arr .raw [.str "a", .str "x", .str "b"] := by
-  have : applyStrictAll w4Doc w4Diff = some (.arr .raw [.str "a", .str "x", .str "b"]) := by
-    simp [applyStrictAll, applyStrict, w4Doc, w4Diff, splice, prefixEq, beforeOk, afterOk]
+  have : applyStrictAll w4Doc w4DiffOld = some (.arr .raw [.str "a", .str "x", .str "b"]) := by
+    simp [applyStrictAll, applyStrict, w4Doc, w4DiffOld, splice, prefixEq, beforeOk, afterOk]
   obtain ⟨r, h1, h2⟩ := patchM_of_ref (by decide) (by decide) this
   exact ⟨r, h1, by rw [h2]; simp [untag, untagList]⟩
+
+/-- the new reading does not apply to an array: a member name does not address an array -/
+theorem w4_patch : patchM w4Doc w4Diff = .err :=
+  patchM_err_of_ref (by decide) (by decide)
+    (by simp [applyStrictAll, applyStrict, w4Doc, w4Diff])
 
 theorem w4_rfc : eval w4Doc (w4Ops.map PatchOp.toSpec) = none := by
   simp [w4Ops, w4Doc, eval, evalOp, PatchOp.toSpec, adp, pp_01, addP,
     show arrayIndex? "01" = none by decide]
 
+/-- on an OBJECT the token names the member `01`, for jd … -/
+theorem w4_patch_obj : ∃ r, patchM (.obj []) w4Diff = .ok r ∧ untag r = .obj [("01", .str "x")] := by
+  have : applyStrictAll (.obj []) w4Diff = some (.obj [("01", .str "x")]) := by
+    simp [applyStrictAll, applyStrict, w4Diff, alookup, specEq, equivB, single, Json.singleValue,
+      Json.isVoid, ainsert]
+  obtain ⟨r, h1, h2⟩ := patchM_of_ref (by decide) (by decide) this
+  exact ⟨r, h1, by rw [h2]; simp [untag, untagKvs]⟩
+
+/-- … and for RFC 6902 -/
+theorem w4_rfc_obj : eval (.obj []) (w4Ops.map PatchOp.toSpec) = some (.obj [("01", .str "x")]) := by
+  simp [w4Ops, eval, evalOp, PatchOp.toSpec, adp, pp_01, addP, ainsert]
+
 def w5Ops : List PatchOp := [adp "/-1" (.str "x")]
-def w5Diff : Diff := [{ path := [.idx (-1)], add := [.str "x"] }]
+def w5DiffOld : Diff := [{ path := [.idx (-1)], add := [.str "x"] }]
+def w5Diff : Diff := [{ path := [.key "-1"], add := [.str "x"] }]
 
 theorem w5_read : readPatchLoop (w5Ops.length + 1) w5Ops [] = .ok w5Diff := by
   simp [w5Ops, w5Diff, readPatchLoop, readPatchHunk, rp_m1, lastIdx?, adp]
 
-theorem w5_patch : ∃ r, patchM w4Doc w5Diff = .ok r ∧
+theorem w5_patch_old : ∃ r, patchM w4Doc w5DiffOld = .ok r ∧
     untag r = .arr .raw [.str "a", .str "b", .str "x"] := by
-  have : applyStrictAll w4Doc w5Diff = some (.arr .raw [.str "a", .str "b", .str "x"]) := by
-    simp [applyStrictAll, applyStrict, w4Doc, w5Diff, splice]
+  have : applyStrictAll w4Doc w5DiffOld = some (.arr .raw [.str "a", .str "b", .str "x"]) := by
+    simp [applyStrictAll, applyStrict, w4Doc, w5DiffOld, splice]
   obtain ⟨r, h1, h2⟩ := patchM_of_ref (by decide) (by decide) this
   exact ⟨r, h1, by rw [h2]; simp [untag, untagList]⟩
+
+theorem w5_patch : patchM w4Doc w5Diff = .err :=
+  patchM_err_of_ref (by decide) (by decide)
+    (by simp [applyStrictAll, applyStrict, w4Doc, w5Diff])
 
 theorem w5_rfc : eval w4Doc (w5Ops.map PatchOp.toSpec) = none := by
   simp [w5Ops, w4Doc, eval, evalOp, PatchOp.toSpec, adp, pp_m1, addP,
     show arrayIndex? "-1" = none by decide]
 
+theorem w5_patch_obj : ∃ r, patchM (.obj []) w5Diff = .ok r ∧ untag r = .obj [("-1", .str "x")] := by
+  have : applyStrictAll (.obj []) w5Diff = some (.obj [("-1", .str "x")]) := by
+    simp [applyStrictAll, applyStrict, w5Diff, alookup, specEq, equivB, single, Json.singleValue,
+      Json.isVoid, ainsert]
+  obtain ⟨r, h1, h2⟩ := patchM_of_ref (by decide) (by decide) this
+  exact ⟨r, h1, by rw [h2]; simp [untag, untagKvs]⟩
 
-/-! ### W6: a `~` escape RFC 6901 does not allow is kept as text -/
+theorem w5_rfc_obj : eval (.obj []) (w5Ops.map PatchOp.toSpec) = some (.obj [("-1", .str "x")]) := by
+  simp [w5Ops, eval, evalOp, PatchOp.toSpec, adp, pp_m1, addP, ainsert]
 
-theorem rp_t2 : readPointer "/~2" = .ok [.key "~2"] := by
-  rw [readPointer_of_toks (toks := ["~2"]) (by simp) (by decide) (by decide)]
-  simp only [List.map_cons, List.map_nil, show ptrUnescape "~2" = "~2" by decide,
-    tokJson_of_key (t := "~2") (by decide) (by decide), newPathM, newPathM.go]
+
+/-! ### W6 (D30, repaired): a `~` escape RFC 6901 does not allow is now an error -/
+
+/-- `checkPointerEscapes`: the pointer slash-tilde-two is rejected (before the repair: the member
+    name tilde-two) -/
+theorem rp_t2 : readPointer "/~2" = .err := by
+  rw [readPointer_eq]
+  have h1 : ("/~2" == "") = false := by decide
+  have h2 : "/~2".startsWith "/" = true := by
+    rw [String.startsWith_string_iff]; exact ⟨['~', '2'], by decide⟩
+  have h3 : escapesOK "/~2".toList = false := by decide
+  simp only [h1, h2, h3, Bool.false_eq_true, if_false, Bool.not_true, Bool.not_false, if_true]
+
+/-- a `~` at the end of a token -/
+theorem rp_t_end : readPointer "/a~" = .err := by
+  rw [readPointer_eq]
+  have h1 : ("/a~" == "") = false := by decide
+  have h2 : "/a~".startsWith "/" = true := by
+    rw [String.startsWith_string_iff]; exact ⟨['a', '~'], by decide⟩
+  have h3 : escapesOK "/a~".toList = false := by decide
+  simp only [h1, h2, h3, Bool.false_eq_true, if_false, Bool.not_true, Bool.not_false, if_true]
 
 theorem pp_t2 : parsePointer "/~2" = none := by
   unfold parsePointer
@@ -3561,14 +3888,15 @@ theorem pp_t2 : parsePointer "/~2" = none := by
   simp [h1, h2, decodeToken]
 
 def w6Ops : List PatchOp := [adp "/~2" (.str "x")]
-def w6Diff : Diff := [{ path := [.key "~2"], add := [.str "x"] }]
+/-- what the reader made of `w6Ops` before the repair: the member named tilde-two -/
+def w6DiffOld : Diff := [{ path := [.key "~2"], add := [.str "x"] }]
 
-theorem w6_read : readPatchLoop (w6Ops.length + 1) w6Ops [] = .ok w6Diff := by
-  simp [w6Ops, w6Diff, readPatchLoop, readPatchHunk, rp_t2, lastIdx?, adp]
+theorem w6_read : readPatchLoop (w6Ops.length + 1) w6Ops [] = .err := by
+  simp [w6Ops, readPatchLoop, readPatchHunk, rp_t2, adp]
 
-theorem w6_patch : ∃ r, patchM (.obj []) w6Diff = .ok r ∧ untag r = .obj [("~2", .str "x")] := by
-  have : applyStrictAll (.obj []) w6Diff = some (.obj [("~2", .str "x")]) := by
-    simp [applyStrictAll, applyStrict, w6Diff, alookup, specEq, equivB, single, Json.singleValue,
+theorem w6_patch_old : ∃ r, patchM (.obj []) w6DiffOld = .ok r ∧ untag r = .obj [("~2", .str "x")] := by
+  have : applyStrictAll (.obj []) w6DiffOld = some (.obj [("~2", .str "x")]) := by
+    simp [applyStrictAll, applyStrict, w6DiffOld, alookup, specEq, equivB, single, Json.singleValue,
       Json.isVoid, ainsert]
   obtain ⟨r, h1, h2⟩ := patchM_of_ref (by decide) (by decide) this
   exact ⟨r, h1, by rw [h2]; simp [untag, untagKvs]⟩
@@ -3698,8 +4026,8 @@ theorem w4_accepted : readPatchOps w4Ops = .ok w4Diff :=
 theorem w5_accepted : readPatchOps w5Ops = .ok w5Diff :=
   readPatchOps_single_add (q := adp "/-1" (.str "x")) rfl rp_m1
 
-theorem w6_accepted : readPatchOps w6Ops = .ok w6Diff :=
-  readPatchOps_single_add (q := adp "/~2" (.str "x")) rfl rp_t2
+theorem w6_rejected : readPatchOps w6Ops = .err := by
+  simp [readPatchOps, w6_read]
 
 /-! ### 9.8 REGRESSIONS: the former findings F1–F3b, now rejected by the reader
 
@@ -3791,77 +4119,451 @@ theorem fixed_unrestricted_goal_witness : ¬ ∃ d, readPatchOps w1Ops = .ok d :
   rw [w1_fixed] at h
   cases h
 
-/-! ### 9.9 OBSERVATIONS: JSON Pointer token syntax (NOT fixed; outside the grammar of C10)
+/-! ### 9.9 REGRESSIONS of D30: JSON Pointer token syntax (former observations, now repaired)
 
-`readPointer` parses index tokens with `strconv.Atoi` and unescapes with the jsonpointer library, both
-more lenient than RFC 6901. The property quantifies over patches jd renders and variations of their
-values, indices, hunks and context tests — never over the spelling of a token — so these are
-observations about the pointer layer, and exactly what the hypothesis `canonPtr` excludes. -/
+Before the repair `readPointer` parsed index tokens with `strconv.Atoi` and kept a `~` that is not
+followed by `0` or `1` as text, both more lenient than RFC 6901: jd applied `add` at the pointers
+slash-zero-one and slash-minus-one to `["a","b"]` and `add` at slash-tilde-two to `{}`, RFC 6902 rejects
+all three — jd was MORE PERMISSIVE (D30). After the repair (`strconv.Itoa(number) == t`,
+`checkPointerEscapes`) a token that is not an RFC 6901 array index names a member, and an invalid
+escape is an error. The same witnesses, now as regressions. -/
 
-/-- **OBSERVATION** (array index tokens outside the RFC 6901 grammar: `strconv.Atoi` accepts a
-    leading zero and a sign). The reader accepts `add` at the pointer slash-zero-one, which on
-    `["a","b"]` inserts at 1, and `add` at the pointer slash-minus-one, which appends; RFC 6902
-    rejects both. -/
-theorem observation_noncanonical_index_tokens :
-    (readPatchOps w4Ops = .ok w4Diff ∧
-     (∃ r, patchM w4Doc w4Diff = .ok r ∧ untag r = .arr .raw [.str "a", .str "x", .str "b"]) ∧
-     eval w4Doc (w4Ops.map PatchOp.toSpec) = none) ∧
-    (readPatchOps w5Ops = .ok w5Diff ∧
-     (∃ r, patchM w4Doc w5Diff = .ok r ∧ untag r = .arr .raw [.str "a", .str "b", .str "x"]) ∧
-     eval w4Doc (w5Ops.map PatchOp.toSpec) = none) :=
-  ⟨⟨w4_accepted, w4_patch, w4_rfc⟩, ⟨w5_accepted, w5_patch, w5_rfc⟩⟩
+/-- **REGRESSION (D30)** array index tokens outside the RFC 6901 grammar (leading zero, sign). The
+    reader reads `add` at slash-zero-one and at slash-minus-one as additions of the MEMBERS `01`, `-1`;
+    on the array `["a","b"]` jd's `Patch` now fails, as RFC 6902 does; on the object `{}` both add
+    the member. -/
+theorem fixed_noncanonical_index_tokens :
+    (readPatchOps w4Ops = .ok w4Diff ∧ patchM w4Doc w4Diff = .err ∧
+     eval w4Doc (w4Ops.map PatchOp.toSpec) = none ∧
+     (∃ r, patchM (.obj []) w4Diff = .ok r ∧ untag r = .obj [("01", .str "x")]) ∧
+     eval (.obj []) (w4Ops.map PatchOp.toSpec) = some (.obj [("01", .str "x")])) ∧
+    (readPatchOps w5Ops = .ok w5Diff ∧ patchM w4Doc w5Diff = .err ∧
+     eval w4Doc (w5Ops.map PatchOp.toSpec) = none ∧
+     (∃ r, patchM (.obj []) w5Diff = .ok r ∧ untag r = .obj [("-1", .str "x")]) ∧
+     eval (.obj []) (w5Ops.map PatchOp.toSpec) = some (.obj [("-1", .str "x")])) :=
+  ⟨⟨w4_accepted, w4_patch, w4_rfc, w4_patch_obj, w4_rfc_obj⟩,
+   ⟨w5_accepted, w5_patch, w5_rfc, w5_patch_obj, w5_rfc_obj⟩⟩
 
-/-- **OBSERVATION** (an escape RFC 6901 does not allow). The reader accepts `add` at the pointer
-    slash-tilde-two; on `{}` jd adds the member named tilde-two, RFC 6901 rejects the pointer. -/
-theorem observation_invalid_escape_accepted :
-    readPatchOps w6Ops = .ok w6Diff ∧
-    (∃ r, patchM (.obj []) w6Diff = .ok r ∧ untag r = .obj [("~2", .str "x")]) ∧
+/-- what the pointer reader makes of the tokens: `01`, `-1`, `+1`, `-0` are member names, `-` alone is
+    still the append index, `0` and `1` are indices -/
+theorem fixed_index_token_reading :
+    readPointer "/01" = .ok [.key "01"] ∧ readPointer "/-1" = .ok [.key "-1"] ∧
+    readPointer "/+1" = .ok [.key "+1"] ∧ readPointer "/-0" = .ok [.key "-0"] ∧
+    readPointer "/-" = .ok [.idx (-1)] ∧ readPointer "/0" = .ok [.idx 0] ∧
+    readPointer "/1" = .ok [.idx 1] :=
+  ⟨rp_01, rp_m1, rp_p1, rp_m0, rp_dash, rp_0, rp_1⟩
+
+/-- **REGRESSION (D30)** an escape RFC 6901 does not allow: the pointers slash-tilde-two and
+    slash-a-tilde are rejected by `readPointer`, `add` at slash-tilde-two is not read at all; RFC 6901
+    rejects the pointer. -/
+theorem fixed_invalid_escape_rejected :
+    readPointer "/~2" = .err ∧ readPointer "/a~" = .err ∧ readPatchOps w6Ops = .err ∧
     eval (.obj []) (w6Ops.map PatchOp.toSpec) = none :=
-  ⟨w6_accepted, w6_patch, w6_rfc⟩
+  ⟨rp_t2, rp_t_end, w6_rejected, w6_rfc⟩
 
-/-- none of these pointer texts is canonical: jd writes the three paths back as the pointers
-    slash-one, slash-dash and slash-tilde-zero-two -/
-theorem observation_pointers_not_canonical :
+/-- what made D30 a defect, kept as documentation: the diffs the reader built from the three
+    witnesses BEFORE the repair apply under jd's `Patch` (insert at 1, append, member tilde-two)
+    where RFC 6902 evaluation of the operations fails -/
+theorem before_repair_readings_applied :
+    ((∃ r, patchM w4Doc w4DiffOld = .ok r ∧ untag r = .arr .raw [.str "a", .str "x", .str "b"]) ∧
+     eval w4Doc (w4Ops.map PatchOp.toSpec) = none) ∧
+    ((∃ r, patchM w4Doc w5DiffOld = .ok r ∧ untag r = .arr .raw [.str "a", .str "b", .str "x"]) ∧
+     eval w4Doc (w5Ops.map PatchOp.toSpec) = none) ∧
+    ((∃ r, patchM (.obj []) w6DiffOld = .ok r ∧ untag r = .obj [("~2", .str "x")]) ∧
+     eval (.obj []) (w6Ops.map PatchOp.toSpec) = none) :=
+  ⟨⟨w4_patch_old, w4_rfc⟩, ⟨w5_patch_old, w5_rfc⟩, ⟨w6_patch_old, w6_rfc⟩⟩
+
+/-- none of these pointer texts is canonical in the sense of `canonPtr` (the text jd itself
+    writes): the first two are now member names that `writePointer` refuses (number-like), the third
+    is not read -/
+theorem fixed_pointers_not_canonical :
     canonPtr "/01" = false ∧ canonPtr "/-1" = false ∧ canonPtr "/~2" = false := by
   refine ⟨?_, ?_, ?_⟩
-  · have hw : writePointerPath [.idx 1] = .ok "/1" := wpp_idx (by decide) (by decide) (by decide)
-    simp [canonPtr, rp_01, hw]
-  · simp [canonPtr, rp_m1, wpp_append]
-  · have hw : writePointerPath [.key "~2"] = .ok "/~02" := by
-      rw [writePointerPath_cons, writePointerPath_nil]
-      have : wtok (.key "~2") = some "~02" := by decide
-      rw [this]; rfl
-    simp [canonPtr, rp_t2, hw]
+  · have : (atoi? "01").isNone = false := by decide
+    simp [canonPtr, rp_01, pathOK', elemOK', this]
+  · have : (atoi? "-1").isNone = false := by decide
+    simp [canonPtr, rp_m1, pathOK', elemOK', this]
+  · simp [canonPtr, rp_t2]
 
-/-- the hypothesis `canonPtr` of `readPatchOps_never_more_permissive` cannot be dropped (witness:
-    the pointer slash-zero-one) -/
-theorem observation_canonical_pointers_needed :
-    ¬ (∀ (ops : List PatchOp) (d : Diff) (t r : Json), t.wf = true → t.listDoc = true →
-        (∀ o ∈ ops, valueOK o.value = true) →
-        readPatchOps ops = .ok d → (∀ h ∈ d, HunkRange h) → patchM t d = .ok r →
-        ∃ r', eval t (ops.map PatchOp.toSpec) = some r' ∧ untag r' = untag r) := by
-  intro H
-  obtain ⟨r, hr, _⟩ := w4_patch
-  have hv : ∀ o ∈ w4Ops, valueOK o.value = true := by
-    intro o ho
-    simp only [w4Ops, adp, List.mem_cons, List.not_mem_nil, or_false] at ho
-    subst ho; decide
-  have hrg : ∀ h ∈ w4Diff, HunkRange h := by
-    intro h hm
+/-- the witness that showed `canonPtr` could not be dropped from `readPatchOps_never_more_permissive`
+    (the pointer slash-zero-one on `["a","b"]`) is no longer one: the patch is read, and jd's `Patch`
+    of what was read FAILS, so the statement holds at this instance without `canonPtr` -/
+theorem fixed_canonical_pointers_witness :
+    readPatchOps w4Ops = .ok w4Diff ∧ (∀ h ∈ w4Diff, HunkRange h) ∧
+    ¬ ∃ r, patchM w4Doc w4Diff = .ok r := by
+  refine ⟨w4_accepted, ?_, ?_⟩
+  · intro h hm
     simp only [w4Diff, List.mem_singleton] at hm
     subst hm
     refine ⟨?_, ?_⟩
     · intro i hi
-      simp only [List.mem_singleton, PathElem.idx.injEq] at hi
-      subst hi; decide
+      simp at hi
     · intro i hi
-      simp only [lastIdx?, List.getLast?_singleton, Option.some.injEq] at hi
-      subst hi; decide
-  obtain ⟨r', h1, _⟩ := H w4Ops w4Diff w4Doc r (by decide) (by decide) hv w4_accepted hrg hr
-  rw [w4_rfc] at h1
-  cases h1
+      simp [lastIdx?] at hi
+  · rintro ⟨r, hr⟩
+    rw [w4_patch] at hr
+    cases hr
+
+/-! ## 9b. The repaired reader is injective: NO hypothesis on the spelling of reference tokens
+
+Since the repair D30 a pointer text `readPointer` accepts is determined by the path read: every `~`
+is a valid escape (`checkPointerEscapes`), so the library's two-pass unescape is RFC 6901 decoding
+and re-escaping gives the raw token back (`escChars_unescape`); an index token is the canonical
+decimal text of its index (`strconv.Itoa(number) == t`); every other token is a member name, written
+back by escaping. Hence `ptrOKr` — the pointer hypothesis of `readPatchOps_never_more_permissive_r` —
+holds of EVERY text whose index tokens are below 2^53 (`ptrOKr_of_idxTokens`; the bound is the
+range in which the model's `int → float64` conversion of an index is exact, as `HunkRange`), and
+the main theorem holds without `canonPtr` (`readPatchOps_never_more_permissive_all_pointers`). -/
+
+
+/-- every reference token of the text that is an RFC 6901 array index is below 2^53 -/
+def idxTokensOK (s : String) : Bool :=
+  (((s.splitOn "/").drop 1).map ptrUnescape).all (fun u =>
+    match indexToken? u with
+    | some i => decide (i < 2 ^ 53)
+    | none => true)
+
+/-- the path element the repaired `readPointer` makes of a (decoded) reference token -/
+def elemR (u : String) : PathElem :=
+  match indexToken? u with
+  | some i => .idx i
+  | none => if u == "-" then .idx (-1) else .key u
+
+theorem decodeToken_cons_ne {c : Char} (h : c ≠ '~') (r : List Char) :
+    decodeToken (c :: r) = (decodeToken r).map (c :: ·) := by
+  rw [decodeToken]
+  · intro r' hr' _; exact h hr'
+  · intro r' hr' _; exact h hr'
+  · intro hr'; exact h hr'
+
+/-- a token (no raw slash) inside a text that passes `checkPointerEscapes` decodes (RFC 6901) -/
+theorem decode_of_escapesOK : ∀ (n : Nat) (r rest : List Char), r.length ≤ n →
+    (rest = [] ∨ ∃ t, rest = '/' :: t) → escapesOK (r ++ rest) = true →
+    (∃ u, decodeToken r = some u) ∧ escapesOK rest = true
+  | _, [], rest, _, _, h => ⟨⟨[], rfl⟩, h⟩
+  | 0, _ :: _, _, hn, _, _ => by simp at hn
+  | n + 1, c :: r, rest, hn, hrest, h => by
+    have hn' : r.length ≤ n := by simpa using hn
+    by_cases hc : c = '~'
+    · subst hc
+      cases r with
+      | nil =>
+        rcases hrest with rfl | ⟨t, rfl⟩
+        · simp [escapesOK_tilde_nil] at h
+        · simp [escapesOK_tilde] at h
+      | cons x r2 =>
+        simp only [List.cons_append] at h
+        rw [escapesOK_tilde, Bool.and_eq_true] at h
+        obtain ⟨hx, h⟩ := h
+        have hx' : x = '0' ∨ x = '1' := by simpa using hx
+        have hxt : x ≠ '~' := by rcases hx' with rfl | rfl <;> decide
+        rw [escapesOK_cons_ne hxt] at h
+        have hn2 : r2.length ≤ n := by simp at hn'; omega
+        obtain ⟨⟨u, hu⟩, hr⟩ := decode_of_escapesOK n r2 rest hn2 hrest h
+        refine ⟨?_, hr⟩
+        rcases hx' with rfl | rfl
+        · exact ⟨'~' :: u, by simp [decodeToken, hu]⟩
+        · exact ⟨'/' :: u, by simp [decodeToken, hu]⟩
+    · simp only [List.cons_append] at h
+      rw [escapesOK_cons_ne hc] at h
+      obtain ⟨⟨u, hu⟩, hr⟩ := decode_of_escapesOK n r rest hn' hrest h
+      exact ⟨⟨c :: u, by rw [decodeToken_cons_ne hc, hu]; rfl⟩, hr⟩
+
+theorem decode_all_of_escapesOK : ∀ (raw : List (List Char)),
+    escapesOK (raw.flatMap (fun t => '/' :: t)) = true → ∀ r ∈ raw, ∃ u, decodeToken r = some u
+  | [], _, r, hr => by cases hr
+  | t :: raw, h, r, hr => by
+    simp only [List.flatMap_cons, List.cons_append] at h
+    rw [escapesOK_cons_ne (by decide)] at h
+    have hrest : (raw.flatMap (fun t => '/' :: t)) = [] ∨
+        ∃ t', (raw.flatMap (fun t => '/' :: t)) = '/' :: t' := by
+      cases raw with
+      | nil => exact Or.inl rfl
+      | cons a b => exact Or.inr ⟨_, rfl⟩
+    obtain ⟨hu, h'⟩ := decode_of_escapesOK t.length t _ (Nat.le_refl _) hrest h
+    rcases List.mem_cons.1 hr with rfl | hr
+    · exact hu
+    · exact decode_all_of_escapesOK raw h' r hr
+
+
+theorem indexToken?_some {u : String} {i : Int} (h : indexToken? u = some i) :
+    0 ≤ i ∧ toString i = u := by
+  unfold indexToken? at h
+  cases ha : atoi? u with
+  | none => rw [ha] at h; cases h
+  | some j =>
+    rw [ha] at h
+    simp only at h
+    split at h
+    · rename_i hc
+      injection h with h; subst h
+      simpa using hc
+    · cases h
+
+def tokBound (u : String) : Prop :=
+  match indexToken? u with
+  | some i => i < 2 ^ 53
+  | none => True
+
+theorem elemR_props {u : String} (hb : tokBound u) :
+    elemOKr (elemR u) = true ∧ elemTok (elemR u) = u ∧
+    ∀ r, newPathM.go (tokJson u :: r) =
+      (match newPathM.go r with | .ok p => .ok (elemR u :: p) | e' => e') := by
+  unfold tokBound at hb
+  cases hi : indexToken? u with
+  | some i =>
+    rw [hi] at hb
+    obtain ⟨h0, hs⟩ := indexToken?_some hi
+    have hn : i.natAbs < 2 ^ 53 := by omega
+    refine ⟨?_, ?_, ?_⟩
+    · simp only [elemR, hi, elemOKr, Bool.and_eq_true, decide_eq_true_eq]; omega
+    · simp only [elemR, hi, elemTok]; rw [idxTok_nonneg h0, hs]
+    · intro r
+      simp only [elemR, hi, tokJson]
+      rw [go_num, floatTrunc_intToFloatBits hn]
+      try (cases newPathM.go r <;> rfl)
+  | none =>
+    by_cases hd : (u == "-") = true
+    · have : u = "-" := by simpa using hd
+      subst this
+      refine ⟨by decide, rfl, ?_⟩
+      intro r
+      have h1 : tokJson "-" = .num (intToFloatBits (-1)) := by simp [tokJson, hi]
+      have h2 : elemR "-" = .idx (-1) := by simp [elemR, hi]
+      rw [h1, h2, go_num, floatTrunc_intToFloatBits (i := -1) (by decide)]
+      try (cases newPathM.go r <;> rfl)
+    · have hd' : (u == "-") = false := by simpa using hd
+      refine ⟨by simp [elemR, hi, hd', elemOKr], by simp [elemR, hi, hd', elemTok], ?_⟩
+      intro r
+      simp only [elemR, hi, hd', tokJson, Bool.false_eq_true, if_false]
+      rw [go_str]
+      try (cases newPathM.go r <;> rfl)
+
+theorem flatMap_congr' {α β} {f g : α → List β} : ∀ {l : List α}, (∀ a ∈ l, f a = g a) →
+    l.flatMap f = l.flatMap g
+  | [], _ => rfl
+  | a :: l, h => by
+    simp only [List.flatMap_cons]
+    rw [h a List.mem_cons_self, flatMap_congr' (fun b hb => h b (List.mem_cons_of_mem _ hb))]
+
+theorem go_elemR : ∀ (toks : List String), (∀ u ∈ toks, tokBound u) →
+    newPathM.go (toks.map tokJson) = .ok (toks.map elemR) ∧ pathOKr (toks.map elemR) = true ∧
+    ptoks (toks.map elemR) = toks
+  | [], _ => ⟨rfl, rfl, rfl⟩
+  | u :: toks, h => by
+    obtain ⟨h1, h2, h3⟩ := elemR_props (h u List.mem_cons_self)
+    obtain ⟨i1, i2, i3⟩ := go_elemR toks (fun v hv => h v (List.mem_cons_of_mem _ hv))
+    refine ⟨?_, ?_, ?_⟩
+    · simp only [List.map_cons]; rw [h3, i1]
+    · simp only [List.map_cons, pathOKr, List.all_cons, h1, Bool.true_and]; exact i2
+    · simp only [ptoks] at i3
+      simp only [List.map_cons, ptoks, h2, i3]
+
+theorem wpL_total : ∀ {p : Path}, pathOKr p = true → ∃ s, wpL p = .ok s
+  | [], _ => ⟨"", rfl⟩
+  | e :: p, h => by
+    simp only [pathOKr, List.all_cons, Bool.and_eq_true] at h
+    obtain ⟨rest, hr⟩ := wpL_total (p := p) h.2
+    simp only [wpL, hr]
+    cases e with
+    | key k => exact ⟨_, rfl⟩
+    | idx i => simp only [wtokL, wtok]; exact ⟨_, rfl⟩
+    | _ => simp [elemOKr] at h
+
+/-- re-escaping the unescaped token gives the token back when it decodes (RFC 6901) -/
+theorem escChars_unescape {r : List Char} (hd : ∃ u, decodeToken r = some u)
+    (hs : ∀ x ∈ r, (x == '/') = false) : escChars (ptrUnescape (String.ofList r)).toList = r := by
+  obtain ⟨u, hu⟩ := hd
+  have he := escChars_of_decode r u hu hs
+  rw [← he, ptrUnescape_esc, String.toList_ofList]
+
+/-- **the repaired reader is injective** (D30): whatever `readPointer` accepts, with index tokens
+    below 2^53, is read to member names and indices whose token-by-token text is the input -/
+theorem ptrOKr_of_idxTokens {s : String} (h : idxTokensOK s = true) : ptrOKr s = true := by
+  unfold ptrOKr
+  cases hr : readPointer s with
+  | err => rfl
+  | panic => rfl
+  | ok p =>
+    simp only
+    rw [readPointer_eq] at hr
+    by_cases h0 : (s == "") = true
+    · rw [if_pos h0] at hr
+      simp only [newPathM, newPathM.go] at hr
+      injection hr with hr; subst hr
+      have : s = "" := by simpa using h0
+      subst this; rfl
+    · rw [if_neg h0] at hr
+      by_cases hsw : s.startsWith "/" = true
+      · by_cases hesc : escapesOK s.toList = true
+        · simp only [hsw, hesc, Bool.not_true, Bool.false_eq_true, if_false] at hr
+          rw [String.startsWith_string_iff] at hsw
+          obtain ⟨rest, hrest⟩ := hsw
+          have hrest' : s.toList = '/' :: rest := by simpa using hrest.symm
+          obtain ⟨hj, hns⟩ := slashToks_spec rest
+          have hsplit : (s.splitOn "/").drop 1 = (slashToks rest).map String.ofList := by
+            rw [splitOn_slash, hrest', ← hj]
+            have := splitOnP_tokens (· == '/') '/' (by simp) (slashToks rest) [] (by simp) hns
+            simp only [List.nil_append] at this
+            rw [this]; rfl
+          have hdec := decode_all_of_escapesOK (slashToks rest) (by rw [hj, ← hrest']; exact hesc)
+          have hb : ∀ u ∈ ((s.splitOn "/").drop 1).map ptrUnescape, tokBound u := by
+            intro u hu
+            have := List.all_eq_true.1 h u hu
+            unfold tokBound
+            cases hi : indexToken? u with
+            | none => trivial
+            | some i => rw [hi] at this; simpa using this
+          obtain ⟨g1, g2, g3⟩ := go_elemR _ hb
+          simp only [newPathM] at hr
+          rw [g1] at hr
+          injection hr with hr; subst hr
+          obtain ⟨s', hs'⟩ := wpL_total g2
+          have htl := wpL_ok hs' (idxRange_of_pathOKr g2)
+          rw [g3, hsplit, List.map_map, List.flatMap_map] at htl
+          have : s'.toList = s.toList := by
+            rw [htl, hrest', ← hj]
+            apply flatMap_congr'
+            intro r hr
+            simp only [Function.comp]
+            rw [escChars_unescape (hdec r hr) (hns r hr)]
+          have hss : s' = s := String.toList_inj.1 this
+          subst hss
+          rw [g2, hs']
+          simp
+        · have : escapesOK s.toList = false := by simpa using hesc
+          simp only [hsw, this, Bool.not_true, Bool.not_false, Bool.false_eq_true, if_false,
+            if_true] at hr
+          cases hr
+      · have : s.startsWith "/" = false := by simpa using hsw
+        simp only [this, Bool.not_false, if_true] at hr
+        cases hr
+
+
+/-- **T1 after the repair D30**: `readPatchOps_never_more_permissive` WITHOUT the hypothesis
+    `canonPtr` on the spelling of the pointer texts. What remains is `idxTokensOK o.path` (Bool):
+    every reference token that IS an RFC 6901 array index is below 2^53. Tokens such as `01`, `+1`,
+    `-1`, `-0`, `007`, the empty token, escaped names are all covered: they are member names for jd
+    and for RFC 6902 alike. -/
+theorem readPatchOps_never_more_permissive_all_pointers (L : FloatLaws) (F : FloatEq0)
+    {ops : List PatchOp} {d : Diff} {t r : Json} (hw : t.wf = true) (hl : t.listDoc = true)
+    (hv : ∀ o ∈ ops, valueOK o.value = true) (hidx : ∀ o ∈ ops, idxTokensOK o.path = true)
+    (hread : readPatchOps ops = .ok d) (hrange : ∀ h ∈ d, HunkRange h)
+    (hp : patchM t d = .ok r) :
+    ∃ r', eval t (ops.map PatchOp.toSpec) = some r' ∧ untag r' = untag r :=
+  readPatchOps_never_more_permissive_r L F hw hl hv (fun o ho => ptrOKr_of_idxTokens (hidx o ho))
+    hread hrange hp
+
+/-- T1a without `canonPtr`: what the reader accepts is a fixed point of read-then-write, where
+    "write" is `rerender` (jd's layout with the pointer writer `wpL`, which does not refuse
+    number-like member names) -/
+theorem readPatchOps_faithful_all_pointers (F : FloatEq0) {ops : List PatchOp} {d : Diff}
+    (hv : ∀ o ∈ ops, o.value.isVoid = false) (hidx : ∀ o ∈ ops, idxTokensOK o.path = true)
+    (hread : readPatchOps ops = .ok d)
+    (happ : ∀ h ∈ d, lastIdx? h.path = some (-1) → h.remove = []) : Faithful d ops :=
+  readPatchOps_faithful_r F hv (fun o ho => ptrOKr_of_idxTokens (hidx o ho)) hread happ
+
+/-- from the entry point, without `canonPtr` -/
+theorem readPatchDoc_never_more_permissive_all_pointers (L : FloatLaws) (F : FloatEq0) {doc : Json}
+    {ops : List PatchOp} {d : Diff} {t r : Json} (hw : t.wf = true) (hl : t.listDoc = true)
+    (hdw : doc.wf = true) (hdl : doc.listDoc = true) (hdv : Yaml.voidFree doc = true)
+    (hdoc : patchOpsOfJson doc = .ok ops) (hidx : ∀ o ∈ ops, idxTokensOK o.path = true)
+    (hread : readPatchDoc doc = .ok d) (hrange : ∀ h ∈ d, HunkRange h)
+    (hp : patchM t d = .ok r) :
+    ∃ r', eval t (ops.map PatchOp.toSpec) = some r' ∧ untag r' = untag r := by
+  rw [readPatchDoc_of_ops hdoc] at hread
+  exact readPatchOps_never_more_permissive_all_pointers L F hw hl
+    (patchOpsOfJson_values hdoc hdw hdl hdv) hidx hread hrange hp
+
+/-- the range hypothesis in minimal form: the index tokens of the operations and the index of the
+    after-context line of every element read are below 2^53 -/
+theorem readPatchOps_never_more_permissive_all_pointers_min (L : FloatLaws) (F : FloatEq0)
+    {ops : List PatchOp} {d : Diff} {t r : Json} (hw : t.wf = true) (hl : t.listDoc = true)
+    (hv : ∀ o ∈ ops, valueOK o.value = true) (hidx : ∀ o ∈ ops, idxTokensOK o.path = true)
+    (hread : readPatchOps ops = .ok d)
+    (hafter : ∀ h ∈ d, ∀ i, lastIdx? h.path = some i → i + (h.remove.length : Int) < 2 ^ 53)
+    (hp : patchM t d = .ok r) :
+    ∃ r', eval t (ops.map PatchOp.toSpec) = some r' ∧ untag r' = untag r := by
+  have hc : ∀ o ∈ ops, ptrOKr o.path = true := fun o ho => ptrOKr_of_idxTokens (hidx o ho)
+  have hpok := readPatchOps_pathOKr F (fun o ho => valueOK_not_void (hv o ho)) hc hread
+  exact readPatchOps_never_more_permissive_r L F hw hl hv hc hread
+    (fun h hm => hunkRange_of_pathOKr (hpok h hm) (hafter h hm)) hp
+
+/-- every hypothesis of the theorem without `canonPtr` as ONE executable predicate -/
+def checkedPatchAll (ops : List PatchOp) : Bool :=
+  ops.all (fun o => valueOK o.value && idxTokensOK o.path) &&
+  (match readPatchOps ops with
+   | .ok d => d.all hunkRangeB
+   | _ => false)
+
+theorem checkedPatchAll_never_more_permissive (L : FloatLaws) (F : FloatEq0) {ops : List PatchOp}
+    {t : Json} (hf : checkedPatchAll ops = true) (hw : t.wf = true) (hl : t.listDoc = true) :
+    ∃ d, readPatchOps ops = .ok d ∧
+      ∀ r, patchM t d = .ok r →
+        ∃ r', eval t (ops.map PatchOp.toSpec) = some r' ∧ untag r' = untag r := by
+  simp only [checkedPatchAll, Bool.and_eq_true] at hf
+  obtain ⟨hv, hf⟩ := hf
+  cases hread : readPatchOps ops with
+  | err => rw [hread] at hf; cases hf
+  | panic => rw [hread] at hf; cases hf
+  | ok d =>
+    rw [hread] at hf
+    refine ⟨d, rfl, fun r hp => ?_⟩
+    have hv' := List.all_eq_true.1 hv
+    simp only [Bool.and_eq_true] at hv'
+    exact readPatchOps_never_more_permissive_all_pointers L F hw hl (fun o ho => (hv' o ho).1)
+      (fun o ho => (hv' o ho).2) hread
+      (fun h hm => hunkRangeB_sound (List.all_eq_true.1 hf h hm)) hp
 
 /-! ## 10. non-vacuity: concrete patches satisfying every hypothesis -/
+
+/-! ### example 0: a pointer outside `canonPtr` through the theorem without `canonPtr` -/
+
+/-- `idxTokensOK` on a text `/t₁/t₂…` given by its raw tokens -/
+theorem idxTokensOK_of_toks {s : String} {toks : List String}
+    (h : s.toList = toks.flatMap (fun t => '/' :: t.toList))
+    (hns : ∀ t ∈ toks, ∀ x ∈ t.toList, (x == '/') = false) :
+    idxTokensOK s = (toks.map ptrUnescape).all (fun u =>
+      match indexToken? u with
+      | some i => decide (i < 2 ^ 53)
+      | none => true) := by
+  unfold idxTokensOK
+  rw [splitOn_slash, h]
+  have := splitOnP_tokens (· == '/') '/' (by simp) (toks.map String.toList) [] (by simp)
+    (by
+      intro t' ht' x hx
+      obtain ⟨t'', h1, rfl⟩ := List.mem_map.1 ht'
+      exact hns t'' h1 x hx)
+  simp only [List.nil_append, List.flatMap_map] at this
+  rw [this]
+  simp only [List.map_cons, List.drop_succ_cons, List.drop_zero, List.map_map]
+  congr 1
+  apply List.map_congr_left
+  intro a _
+  simp [Function.comp]
+
+theorem idxTokensOK_01 : idxTokensOK "/01" = true := by
+  rw [idxTokensOK_of_toks (toks := ["01"]) (by decide) (by decide)]
+  decide
+
+/-- non-vacuity of the theorem without `canonPtr`: the former witness pointer slash-zero-one, on the
+    object `{}` (jd and RFC 6902 both add the member `01`) -/
+theorem ex_all_pointers (L : FloatLaws) (F : FloatEq0) :
+    ∃ r r', patchM (.obj []) w4Diff = .ok r ∧
+      eval (.obj []) (w4Ops.map PatchOp.toSpec) = some r' ∧ untag r' = untag r := by
+  obtain ⟨r, hr, _⟩ := w4_patch_obj
+  have hv : ∀ o ∈ w4Ops, valueOK o.value = true := by
+    intro o ho
+    simp only [w4Ops, adp, List.mem_cons, List.not_mem_nil, or_false] at ho
+    subst ho; decide
+  have hi : ∀ o ∈ w4Ops, idxTokensOK o.path = true := by
+    intro o ho
+    simp only [w4Ops, adp, List.mem_cons, List.not_mem_nil, or_false] at ho
+    subst ho; exact idxTokensOK_01
+  obtain ⟨r', h1, h2⟩ := readPatchOps_never_more_permissive_all_pointers L F (t := .obj [])
+    (by decide) (by decide) hv hi w4_accepted fixed_canonical_pointers_witness.2.1 hr
+  exact ⟨r, r', hr, h1, h2⟩
+
 
 
 /-! ### example A (both theorems): a replacement with both context lines -/
@@ -3879,7 +4581,8 @@ theorem ex_rerender : rerender exDiff = .ok exOps := by
     simp [renderPatchHunk', exHunk, ctxOps, remOpsOf, addOpsOf, Json.isVoid, lastIdx?, setLastIdx, wpp_0,
       wpp_1, wpp_2, exOps, tst, rmv, adp]
     rfl
-  simp [rerender, exDiff, rerenderHunk, this]
+  have hk : keysOK exHunk.path := by intro k hk; simp [exHunk] at hk
+  simp [rerender, exDiff, rerenderHunk, renderPatchHunkW_wpL hk, this]
   simp [exHunk, lastIdx?]
 
 
@@ -3982,7 +4685,7 @@ example (L : FloatLaws) (F : FloatEq0) :
     value that differs from the tested one in its array tag only -/
 
 theorem rp_k : readPointer "/k" = .ok [.key "k"] := by
-  rw [readPointer_of_toks (toks := ["k"]) (by simp) (by decide) (by decide)]
+  rw [readPointer_of_toks (toks := ["k"]) (by simp) (by decide) (by decide) (by decide)]
   simp only [List.map_cons, List.map_nil, show ptrUnescape "k" = "k" by decide,
     tokJson_of_key (t := "k") (by decide) (by decide), newPathM, newPathM.go]
 
@@ -4006,7 +4709,11 @@ theorem exB_faithful : Faithful exBDiff exBOps := by
       rw [renderPatchHunk_eq]
       simp [renderPatchHunk', ctxOps, remOpsOf, addOpsOf, Json.isVoid, wpp_k, tst, rmv]
       rfl
-    simp [rerender, exBDiff, rerenderHunk, lastIdx?, this]
+    have hk : keysOK ({ path := [.key "k"], remove := [.arr .raw []] } : Hunk).path := by
+      intro k hk
+      simp only [List.mem_singleton, PathElem.key.injEq] at hk
+      subst hk; exact ⟨by decide, by decide⟩
+    simp [rerender, exBDiff, rerenderHunk, lastIdx?, renderPatchHunkW_wpL hk, this]
   · exact .cons (OpSim.refl _) (.cons ⟨rfl, rfl, fun h => absurd rfl h⟩ .nil)
 
 theorem exB_range : ∀ h ∈ exBDiff, HunkRange h := by
@@ -4076,7 +4783,7 @@ def exCOps : List PatchOp := [adp "/l/-" (.str "x"), adp "/l/-" (.str "y")]
 def exCDoc : Json := .obj [("l", .arr .raw [.str "a"])]
 
 theorem exC_rerender : rerender exCDiff = .ok exCOps := by
-  simp [rerender, exCDiff, rerenderHunk, lastIdx?, wpp_l_append, exCOps]
+  simp [rerender, exCDiff, rerenderHunk, lastIdx?, wpL_of_write wpp_l_append, exCOps]
 
 theorem exC_gwf : Gwf exCDiff = true := by decide
 
@@ -4205,9 +4912,18 @@ example (L : FloatLaws) (F : FloatEq0) : ∃ r r', patchM exDoc exDiff = .ok r 
 #print axioms loop_alone_context_indices_unchecked
 #print axioms loop_alone_after_context_vs_coalesced_removals
 #print axioms loop_alone_unrestricted_goal_is_false
-#print axioms observation_noncanonical_index_tokens
-#print axioms observation_invalid_escape_accepted
-#print axioms observation_pointers_not_canonical
-#print axioms observation_canonical_pointers_needed
+#print axioms fixed_noncanonical_index_tokens
+#print axioms fixed_index_token_reading
+#print axioms fixed_invalid_escape_rejected
+#print axioms before_repair_readings_applied
+#print axioms fixed_pointers_not_canonical
+#print axioms fixed_canonical_pointers_witness
+#print axioms ptrOKr_of_idxTokens
+#print axioms readPatchOps_never_more_permissive_r
+#print axioms readPatchOps_never_more_permissive_all_pointers
+#print axioms readPatchOps_never_more_permissive_all_pointers_min
+#print axioms readPatchOps_faithful_all_pointers
+#print axioms readPatchDoc_never_more_permissive_all_pointers
+#print axioms checkedPatchAll_never_more_permissive
 
 end Jd.NMP
